@@ -12,1140 +12,2586 @@ Definition show_fres (r : fres) : string :=
   end.
 Definition check (rs : list rune) : string := digest (show_fres (format_res rs)).
 Definition full (rs : list rune) : string := show_fres (format_res rs).
-Eval vm_compute in ("<<<M1531>>>" ++ check (runes_of_ascii "options { // c1a
+Eval vm_compute in ("<<<M3539>>>" ++ check (runes_of_ascii "//	t
+packet charz {
+    @leftPad(' ')
+    repeat As `line1
+    line2`,
+    match tag as Logon {
+        007 : roots,
+        """ ++ [128512]%N ++ runes_of_ascii """ : calculatedFrom,
+        [65535, ""x y"", 0, """", """"] : body,
+        ""\n"" : BodyLength,
+    },
+    @leftPad('\x00')
+    char[255] msg_type @lengthOf(matchKey) `line1
+    line2`,
+    u16 options1 @calculatedFrom(""{,}"") `two words`,
+    Foo {
+        repeat rootA,
+        crc f32a `crlf
+        line`,
+    },
+    @lengthOf(packetx)
+    repeat char[4294967296] i64_,
+    @rightPad('0')
+    roots stringy,
+    string a1,
+    @rightPad('\x00')
+    @rightPad('0')
+    match Header as charz {
+        3 : repeatCount,
+        ""{,}"" : len,
+    },
+    @tag(4294967296)
+    repeat i8i8 matchKey `it's`,
+}
+
+packet metadata {
+    o {
+        char[] Pad,
+        // `tick` ""quote"" 'q'
+        match repeatCount as Z9_ {
+            0123456789 : msg_type,
+            4294967296 : trueish,
+            [""packet"", ""x y""] : falsey,
+        },
+        repeat int string_,// `tick` ""quote"" 'q'
+    },
+    @tag(007)
+    match Pad as leftPad {
+        [
+            ""a\""b"", ""it's"", ""x y"", ""it's"", 007,
+            ""`tick`"", 65535
+        ] : Header,
+        [42] : charz,
+        007 : rootA,
+    },
+    zchar[0123456789] falsey @lengthOf(metadata),
+    A {
+        match x as f32a {
+            0123456789 : repeatCount,
+            [""" ++ [28040; 24687]%N ++ runes_of_ascii """] : tag,
+            00 : i64_,
+        },
+        match lengthOf as Packet {
+            65535 : string_,
+            // 50% %s
+            ""a\""b"" : roots,
+            4294967296 : chars,
+            //x
+        },
+        char[0] x `" ++ [28040; 24687; 31867; 22411]%N ++ runes_of_ascii "`,
+    },
+    match msg_type as Logon {
+        65535 : Pad,
+    },
+    @leftPad('0')
+    repeat metadata {
+        repeat u32 Foo `// not a comment`,
+        match _x as Foo {
+            // 50% %s
+            [""`tick`""] : Foo,
+            65535 : repeatCount,
+            """ ++ [28040; 24687]%N ++ runes_of_ascii """ : crc,
+            ""CRC32"" : calculatedFrom,
+            ""// no comment"" : lengthOf,
+        },
+        repeat int64 repeatCount,
+    },
+    match Pad as Packet {
+        ""abc"" : packetx,
+        """" : rootA,
+        ""a\""b"" : packetx,
+        ""\" ++ [233]%N ++ runes_of_ascii """ : f32a,
+        10 : x_y_z,
+    },
+    u128 `// not a comment`,
+    @lengthOf(calculatedFrom)
+    match string_ as u {
+        """ ++ [28040; 24687]%N ++ runes_of_ascii """ : x_y_z,
+        //
+        255 : As,
+        007 : len,
+        """ ++ [233]%N ++ runes_of_ascii "t" ++ [233]%N ++ runes_of_ascii """ : a1,
+        0 : Pad,
+    },
+}")).
+Eval vm_compute in ("<<<M809>>>" ++ check (runes_of_ascii "MetaData
+    charz	{ float BodyLength
+    `a\` // packet A { u8 x, }
+, chars
+body
+    ,  _x  crc `it's`
+    ,
+    u64
+    Z9_
+// packet A { u8 x, }
+/// triple
+,}
+    options// @lengthOf(
+{  As = '0' ;
+    options1// trailing space 
+=char[
+    //x
+    10
+// a // b
+// packet A { u8 x, }
+]} packet	o { @leftPad
+(
+    /// triple
+    ) match
+asx as matchKey// 50% %s
+{ 7
+    //	t
+    :
+    leftPad , ""it's"" :crc[  0, 10
+, 0123456789 , ""1"" ] : As  , [ 65535
+,
+"""", // `tick` ""quote"" 'q'
+""it's""
+, """ ++ [233]%N ++ runes_of_ascii "t" ++ [233]%N ++ runes_of_ascii """	, """ ++ [28040; 24687]%N ++ runes_of_ascii """, 007
+// c
+// `tick` ""quote"" 'q'
+, 7 , """ ++ [128512]%N ++ runes_of_ascii """] : u8x,},
+i32 pack @calculatedFrom(""" ++ [28040; 24687]%N ++ runes_of_ascii """ )	`
+` ,
+u{ Foo
+    , uint16
+float	@lengthOf(a1 ) ,
+//
+//x
+repeat u8 len`it's` , char
+MetaDataX
+    //	t
+    @calculatedFrom(// " ++ [27880; 37322]%N ++ runes_of_ascii "
+""packet"" )
+`two words` ,	} , char[4294967296
+    ] zchar @calculatedFrom( ""a	b"" )
+    ,	match	calculatedFrom as
+    asx {
+    ""1"" :matchKey  , ""\n"" : asx // c
+,""`tick`""	:
+Foo
+    , ""{,}""
+    :
+pack ,
+""a	b"" : //x
+lengthOf
+""\n"": MetaDataX, // c
+}
+,  } packet roots {
+    o{float64 Logon@lengthOf( rootA )
+`u8 x,` // c
+, } ,
+    char[] uint8x
+`say ""hi""`
+//
+// " ++ [128512]%N ++ runes_of_ascii " emoji
+,u ,repeat
+i8i8 { match
+leftPad as	Foo { ""\n"" // a // b
+:
+/// triple
+// a // b
+BodyLength	, [ // 50% %s
+007
+    ]
+: T }
+,
+    match u as stringy
+{ ""// no comment"":x_y_z ,}	,
+u8 rootA //x
+,  int64
+pack , } ,
+    string string_	@calculatedFrom(
+// @lengthOf(
+// " ++ [128512]%N ++ runes_of_ascii " emoji
+""abc"" )
+    // trailing space 
+    `a\`, calculatedFrom// trailing space 
+{	match
+    i64_
+    as
+    // trailing space 
+    rootA {
+    [ ""packet""
+] : // " ++ [27880; 37322]%N ++ runes_of_ascii "
+charz,[""a\""b"" , ""abc"" , // c
+0123456789
+, ""a\\"" // " ++ [128512]%N ++ runes_of_ascii " emoji
+,
+    ""x y""
+    ,
+    ""// no comment"" ] :rootA  ""packet"" :lengthOf , ""// no comment"" : trueish
+    , 0123456789: packetx[
+0 ,
+""\" ++ [233]%N ++ runes_of_ascii """
+    , 0123456789
+,""`tick`"" ] // packet A { u8 x, }
+: msg_type	,}
+, char[] msg_type
+@lengthOf( pack),
+repeat/// triple
+char[] falsey ,
+    //	t
+    string_ _x
+,
+//	t
+// 50% %s
+}
+    , }
+")).
+Eval vm_compute in ("<<<M1266>>>" ++ check (runes_of_ascii "options {} root packet falsey {
+    // @lengthOf(
+    repeat	char[]	leftPad, repeat f64  _x `a\` , uint64 float @calculatedFrom(""{,}"" )  , }
+    // `tick` ""quote"" 'q'
+    root packet  u128 { @lengthOf( repeatCount
+    /// triple
+    ) @tag(
+255
+    ) int64
+    u  `two words` ,
+a1 @calculatedFrom(
+    ""packet"" )
+    `a\`, @leftPad // " ++ [128512]%N ++ runes_of_ascii " emoji
+(
+'\x00'	)  repeat x_y_z {
+repeat rootA`100% of %d` ,
+    }
+    , @rightPad ( ) lengthOf  @lengthOf( Pad
+) , }packet
+    i8i8 {
+    // 50% %s
+    packetx @lengthOf(u8x)`crlf
+line` ,//
+metadata{
+    repeat // `tick` ""quote"" 'q'
+trueish { uint8x `// not a comment` ,zchar[7
+]
+msg_type , i64_
+    ,i64 u  @calculatedFrom(
+""a\""b"" )
+    `it's`
+,
+    } ,}	,
+char[ 3 ]
+x_y_z `a\`	,@lengthOf(Header  )  i8 repeatCount`it's`
+    ,
+    chars @calculatedFrom(
+""it's"" ) `{ , }` , char[]
+i8i8// " ++ [27880; 37322]%N ++ runes_of_ascii "
+@calculatedFrom( ""it's"" )
+//
+// packet A { u8 x, }
+,repeat i32 uint8x
+,
+    roots
+    @lengthOf( stringy
+)	`// not a comment` ,
+    @leftPad //x
+(
+    '\x00' )int64 float @lengthOf(
+    u )
+,
+repeat i64// 50% %s
+repeatCount , }
+packet	As {@leftPad(
+'0' // 50% %s
+) char[	65535 ]  falsey `a\` , x_y_z// @lengthOf(
+int ,
+    @lengthOf( MetaDataX	) match
+    Logon as
+leftPad{ ""abc"" :zchar,
+    255 : A // " ++ [128512]%N ++ runes_of_ascii " emoji
+,
+} ,
+// trailing space 
+// packet A { u8 x, }
+@lengthOf(Pad	)	repeat BodyLength{ repeat zchar[
+1 ] tag
+    `a\` , uint32 Packet @lengthOf(msg_type ) ,
+    // `tick` ""quote"" 'q'
+    }
+    //	t
+    ,
+uint64 MetaDataX `two words` , @calculatedFrom(""x y"") @calculatedFrom( ""// no comment"" )@leftPad
+( '0' ) uint64	MetaDataX	`it's` , @tag(007  ) u128 float , }
+")).
+Eval vm_compute in ("<<<M3586>>>" ++ check (runes_of_ascii "options 
+{	StringPrefixLenType	= u16 ; ArrayPrefixLenType
+= 
+u16;
+} packet
+    SampleBinary
+    {  uint16	MsgType`" ++ [28040; 24687; 31867; 22411]%N ++ runes_of_ascii "` ,u16 
+BodyLenght
+@lengthOf(Body
+
+    )`" ++ [28040; 24687; 20307; 38271; 24230]%N ++ runes_of_ascii "`
+,  match
+
+    MsgType as	Body
+{ 
+1 
+:
+	Logon
+
+,  2:  Logout,
+
+    3 :Heartbeat
+    ,
+
+4
+	: RiskControlRequest ,
+5
+:RiskControlResponse
+
+    , 
+} , 
+@calculatedFrom(
+""CRC32"" )u32  Ckecksum`" ++ [26657; 39564; 21644]%N ++ runes_of_ascii "`,
+    } packet	Logon	{ 
+@leftPad
+(
+'0'
+
+)
+char[ 10] 
+UserName	`" ++ [29992; 25143; 21517]%N ++ runes_of_ascii "`	,
+    string
+    Password `" ++ [23494; 30721]%N ++ runes_of_ascii "` , uint64
+    ClientId
+`" ++ [23458; 25143; 31471]%N ++ runes_of_ascii "ID`
+	,
+u16
+
+    HeartbeatInterval	`" ++ [24515; 36339; 38388; 38548]%N ++ runes_of_ascii "`
+, }
+
+    packet
+    Logout
+    {
+
+@rightPad
+
+(  '0'
+    )
+
+char[
+
+    10 ]
+    UserName `" ++ [29992; 25143; 21517]%N ++ runes_of_ascii "`
+
+    ,
+
+    uint64
+	ClientId `" ++ [23458; 25143; 31471]%N ++ runes_of_ascii "ID`
+,
+	}  packet
+Heartbeat  {
+    }
+	packet
+RiskControlRequest
+{ string  UniqueOrderId
+
+`" ++ [21807; 19968; 35746; 21333; 21495]%N ++ runes_of_ascii "`	, 
+char[ 16 ]ClOrdID `" ++ [23458; 25143; 35746; 21333; 21495]%N ++ runes_of_ascii "` 
+, char[ 3
+]	MarketID
+	`" ++ [24066; 22330]%N ++ runes_of_ascii "id`, char[	12	]
+    SecurityID  `" ++ [35777; 21048; 20195; 30721]%N ++ runes_of_ascii "`,
+char
+
+Side
+
+    `" ++ [20080; 21334; 26041; 21521]%N ++ runes_of_ascii "`
+	,
+    char OrderType  `" ++ [35746; 21333; 31867; 22411]%N ++ runes_of_ascii "`, u64
+
+    Price
+`" ++ [20215; 26684]%N ++ runes_of_ascii "`
+,
+	u32
+    Qty  `" ++ [25968; 37327]%N ++ runes_of_ascii "`	,
+    repeat
+	string ExtraInfo `" ++ [38468; 21152; 20449; 24687]%N ++ runes_of_ascii "`,	repeat  SubOrder  { char[
+	16 
+]
+    ClOrdID
+    `" ++ [23376; 35746; 21333; 21495]%N ++ runes_of_ascii "`
+
+    ,  u64
+
+Price
+`" ++ [23376; 35746; 21333; 20215; 26684]%N ++ runes_of_ascii "`
+    ,
+	u32
+
+Qty
+
+`" ++ [23376; 35746; 21333; 25968; 37327]%N ++ runes_of_ascii "`	, } , }
+    packet 
+RiskControlResponse 
+{
+string UniqueOrderId  `" ++ [21807; 19968; 35746; 21333; 21495]%N ++ runes_of_ascii "` ,i32 Status `" ++ [29366; 24577]%N ++ runes_of_ascii "`, 
+string Msg  `" ++ [32467; 26524; 20449; 24687]%N ++ runes_of_ascii "`	,
+    repeat  Detail
+    ,
+
+}
+packet
+
+    Detail {
+    string
+
+RuleName
+
+    `" ++ [35268; 21017; 21517; 31216]%N ++ runes_of_ascii "` ,
+u16
+
+    Code`" ++ [21407; 22240; 20195; 30721]%N ++ runes_of_ascii "`,
+	}
+")).
+Eval vm_compute in ("<<<M1113>>>" ++ check (runes_of_ascii "  packet u8x {o,
+@leftPad ( '0'	) f32a
+    ,
+// `tick` ""quote"" 'q'
+// `tick` ""quote"" 'q'
+repeat T ,// c
+}// trailing space 
+packet  packetx { @calculatedFrom( ""packet"" ) // " ++ [27880; 37322]%N ++ runes_of_ascii "
+match
+packetx	as options1{
+""a\""b"" : x
+    255
+:rootA , } , @leftPad( )stringy// trailing space 
+repeatCount `it's` ,
+    @lengthOf( i64_ ) repeat calculatedFrom {
+A @calculatedFrom(
+    ""{,}"" //	t
+) ,tag@calculatedFrom(	""" ++ [128512]%N ++ runes_of_ascii """ ) , }, @rightPad //x
+( '\x00' ) @tag(
+    1
+    ) Logon `u8 x,` ,@calculatedFrom( ""abc"" ) @lengthOf( roots
+) x_y_z ,
+    @rightPad
+() //	t
+match falsey// `tick` ""quote"" 'q'
+as
+u8x { ""\" ++ [233]%N ++ runes_of_ascii """: A ,
+} , // c
+@lengthOf(
+Packet ) MetaDataX `100% of %d` ,char[ // " ++ [27880; 37322]%N ++ runes_of_ascii "
+00] trueish
+,} packet	BodyLength {
+}
+root//
+packet
+    stringy	{
+    f32 metadata@lengthOf(// " ++ [128512]%N ++ runes_of_ascii " emoji
+A ) `line1
+line2`
+, }
+packet charz//	t
+{ chars	@calculatedFrom(
+""a	b"" )
+`100% of %d` , i8
+falsey , @rightPad ( )match Packet as lengthOf
+/// triple
+// c
+{
+    0123456789 // a // b
+: len ,
+""CRC32"" :string_ ,
+    ""a	b"": string_ [
+42 ,
+// " ++ [128512]%N ++ runes_of_ascii " emoji
+// `tick` ""quote"" 'q'
+0123456789 ]:
+_x , } , calculatedFrom @calculatedFrom( ""a	b""
+    ) , @tag( 65535 ) match packetx as
+_x{ //x
+10 :
+len , ""a	b"":
+stringy 1: pack
+, //x
+""// no comment"" :falsey
+    // trailing space 
+    ,},
+    } 	 ")).
+Eval vm_compute in ("<<<M755>>>" ++ check (runes_of_ascii "
+root packet Z9_ { char[]falsey
+`a\`, repeat char[] x_y_z `" ++ [233]%N ++ runes_of_ascii "`
+    , rootA@calculatedFrom(""a\""b"" ) ,
+    f32a , char[] packetx // packet A { u8 x, }
+@lengthOf( msg_type) ,	} packet MetaDataX
+    // " ++ [27880; 37322]%N ++ runes_of_ascii "
+    { i16
+//
+// " ++ [27880; 37322]%N ++ runes_of_ascii "
+pack@lengthOf(// @lengthOf(
+Z9_) ,
+@calculatedFrom(""\n"" )@lengthOf( a1
+)f32a
+//x
+//
+@calculatedFrom( ""1"" )
+    ,
+// c
+/// triple
+@leftPad ( '0' ) Pad
+@calculatedFrom( """ ++ [233]%N ++ runes_of_ascii "t" ++ [233]%N ++ runes_of_ascii """ ) `100% of %d` ,	uint64 u `crlf
+line` , @calculatedFrom(
+""a	b"" )
+@leftPad (
+    ) @tag(00 ) repeat Packet
+Packet
+,
+float64 a1 `" ++ [28040; 24687; 31867; 22411]%N ++ runes_of_ascii "`	,	} packet
+string_ {T	{ char[] u `crlf
+line`
+,} , @tag(
+// packet A { u8 x, }
+//
+42
+)
+    repeat char[ 255	]Foo ,@lengthOf( _x ) @calculatedFrom( ""abc"" )	_x // " ++ [128512]%N ++ runes_of_ascii " emoji
+`" ++ [28040; 24687; 31867; 22411]%N ++ runes_of_ascii "` ,char[ // @lengthOf(
+00] // @lengthOf(
+Packet `line1
+line2` , @lengthOf( calculatedFrom) repeat// @lengthOf(
+Pad matchKey
+,  @calculatedFrom( """ ++ [28040; 24687]%N ++ runes_of_ascii """ )uint16//
+rootA
+, f64 msg_type
+// `tick` ""quote"" 'q'
+// @lengthOf(
+, } packet int {
+    @lengthOf( A ) repeat Foo // c
+{ uint32	crc// 50% %s
+@calculatedFrom( ""\n"" ), }
+,	}  options {Z9_ =
+'\x00'
+; Pad  = '\x00'
+    ; options1  ='\x00'
+    //x
+    ;matchKey =
+3
+asx
+    = ""// no comment""	}
+")).
+Eval vm_compute in ("<<<M4064>>>" ++ check (runes_of_ascii "root packet asx {
+    @tag(3)
+    int8 metadata `" ++ [233]%N ++ runes_of_ascii "`,
+    //x
+    repeat char[] Z9_,
+    @rightPad('\x00')
+    @lengthOf(Header)
+    @lengthOf(crc)
+    MetaDataX {
+        u64 u128,
+    },//
+    int16 leftPad,
+    @tag(10)
+    @tag(4294967296)
+    @leftPad(' ')
+    repeat u16 repeatCount `100% of %d`,
+    @rightPad()
+    @tag(0)
+    match crc as chars {
+        0123456789 : BodyLength,
+        """ ++ [128512]%N ++ runes_of_ascii """ : Logon,
+        [10, 255] : MetaDataX,
+        0123456789 : Packet,
+        ""// no comment"" : T,
+        65535 : charz,
+    },
+    match falsey as u128 {
+        [""" ++ [28040; 24687]%N ++ runes_of_ascii """, ""// no comment""] : leftPad,
+        [65535] : asx,
+        10 : u,
+        ""{,}"" : _x,
+    },
+    // @lengthOf(
+    // trailing space 
+    match As as MetaDataX {
+        0123456789 : a1,
+        [65535, ""abc""] : tag,
+        // `tick` ""quote"" 'q'
+        [
+            """ ++ [233]%N ++ runes_of_ascii "t" ++ [233]%N ++ runes_of_ascii """, ""`tick`"", ""\" ++ [233]%N ++ runes_of_ascii """, ""abc"", ""\" ++ [233]%N ++ runes_of_ascii """,
+            ""packet"", ""packet""
+        ] : o,
+        00 : crc,
+    },
+}
+
+packet chars {
+    @calculatedFrom(""x y"")
+    char[255] crc `100% of %d`,
+    @tag(65535)
+    f64 BodyLength @calculatedFrom(""CRC32""),
+}")).
+Eval vm_compute in ("<<<M1274>>>" ++ check (runes_of_ascii "options
+{ A = f64
+; Z9_='\x00'
+// packet A { u8 x, }
+//
+Packet	=""{,}""; Header = ' ' ;
+rootA= i32
+    } packet Logon { }root packet x {
+    @lengthOf( Packet
+) @rightPad // c
+( '\x00'
+)@leftPad ( ' ' )// trailing space 
+repeat zchar[ 7 ]Pad `a\`
+,
+f32a  charz,
+    //	t
+    zchar[  65535
+    ] x @calculatedFrom( ""\n"") , // trailing space 
+zchar@lengthOf(
+x_y_z )
+    //
+    `` ,
+}packet x_y_z
+{
+int64	len ``//	t
+, @calculatedFrom( ""`tick`""	) string
+lengthOf `crlf
+line`// 50% %s
+, @rightPad(
+    ) match
+msg_type as
+BodyLength { [
+""// no comment""// @lengthOf(
+]: tag// " ++ [27880; 37322]%N ++ runes_of_ascii "
+,
+} ,
+//	t
+//
+@tag( // " ++ [27880; 37322]%N ++ runes_of_ascii "
+10 ) zchar[
+42 ] Z9_ ,zchar[
+65535 ]matchKey @calculatedFrom(
+""\" ++ [233]%N ++ runes_of_ascii """ ) `a\` , @lengthOf(tag
+//x
+// " ++ [128512]%N ++ runes_of_ascii " emoji
+)
+    // " ++ [128512]%N ++ runes_of_ascii " emoji
+    float `// not a comment`	,
+@leftPad
+    // packet A { u8 x, }
+    ( ' ' ) @tag(00) @tag(
+007
+) repeat char[]
+    asx
+`line1
+line2`
+    // 50% %s
+    , @lengthOf(
+rootA ) repeat repeatCount As ,
+    }
+    packet zchar{ @lengthOf(
+    As ) repeat
+i16 calculatedFrom ,@tag(1  )  uint16 len ,	}
+")).
+Eval vm_compute in ("<<<M4002>>>" ++ check (runes_of_ascii "options {
+    u = int32
+    packetx = ""`tick`"";
+    matchKey = '0'
+    As = 3;
+    Packet = true;
+}
+
+root packet tag {
+    // @lengthOf(
+    u64 stringy,
+    repeat options1 {
+        zchar[4294967296] f32a ``,
+        match tag as options1 {
+            10 : A,
+            007 : Pad,
+            0123456789 : calculatedFrom,
+            7 : stringy,
+            [""a\""b"", 0123456789] : options1,
+            3 : u8x,
+            // packet A { u8 x, }
+        },
+    },
+}
+
+packet len {
+    @calculatedFrom(""" ++ [233]%N ++ runes_of_ascii "t" ++ [233]%N ++ runes_of_ascii """)
+    i8 repeatCount @lengthOf(roots),
+    int32 i64_ @calculatedFrom(""`tick`""),
+    @rightPad(' ')
+    repeat char[] u8x,
+    @rightPad('\x00')
+    leftPad {
+        match lengthOf as charz {
+            ""1"" : tag,
+            ""// no comment"" : x,
+            [""" ++ [233]%N ++ runes_of_ascii "t" ++ [233]%N ++ runes_of_ascii """, ""CRC32""] : pack,
+            3 : charz,
+        },
+    },
+}
+
+options {
+}
+
+MetaData matchKey {
+    uint64 repeatCount,
+    roots x_y_z `say ""hi""`,
+    roots As,
+    A crc,
+    uint64 f32a,
+}")).
+Eval vm_compute in ("<<<M1371>>>" ++ check (runes_of_ascii "packet crc {int8  msg_type  @lengthOf( BodyLength ) `" ++ [28040; 24687; 31867; 22411]%N ++ runes_of_ascii "` ,
+// " ++ [128512]%N ++ runes_of_ascii " emoji
+//x
+} options { T
+=i8 matchKey=
+""" ++ [128512]%N ++ runes_of_ascii """ roots=
+    ' ' ;
+} packet
+Header { @calculatedFrom( ""x y"" // trailing space 
+)@tag(
+    0123456789 //	t
+)// 50% %s
+float32 matchKey`crlf
+line`	,  string
+    body , repeat o
+crc , match matchKey as x { [ 42
+    ]:charz, [""a	b"", """ ++ [233]%N ++ runes_of_ascii "t" ++ [233]%N ++ runes_of_ascii """ ,0 , 7 , 00 ,65535, ""packet"" ]: x_y_z  ,
+    4294967296 :
+// @lengthOf(
+// 50% %s
+_x ,7  : msg_type//x
+, 007 :
+Pad , }
+, } packet x { repeat
+string Logon`
+`
+, @tag( 007) f64 repeatCount@lengthOf(
+uint8x ), Z9_{ repeat leftPad A,} , @leftPad( )
+_x Pad ,
+@tag( 00// @lengthOf(
+)
+    match asx
+    as len { ""a\""b"" : lengthOf //	t
+, } , uint8x `crlf
+line`
+,
+    zchar[ 7
+    ] Pad // `tick` ""quote"" 'q'
+, @rightPad
+('0' ) string packetx
+// " ++ [128512]%N ++ runes_of_ascii " emoji
+// " ++ [128512]%N ++ runes_of_ascii " emoji
+@calculatedFrom(
+    ""it's"" )
+`tab	here`, repeat stringy { zchar[
+1	]	crc
+    `" ++ [28040; 24687; 31867; 22411]%N ++ runes_of_ascii "` ,
+o _x
+    `line1
+line2`, } ,}")).
+Eval vm_compute in ("<<<M4227>>>" ++ check (runes_of_ascii "packet  int	{ @tag(
+    4294967296
+
+    )
+string// trailing space 
+    	int	,
+
+match
+string_  
+      //
+    // 50% %s
+  as
+	matchKey  {
+""it's""
+	: 
+uint8x 10
+	:
+
+    u128 , 
+  // 50% %s
+	007  :
+
+lengthOf 
+,
+} ,  
+  // packet A { u8 x, }
+  @calculatedFrom( ""{,}""
+)	int64 stringy
+@calculatedFrom(""CRC32"" )	,
+	f64 
+f32a, 
+u
+
+    @lengthOf(
+lengthOf	)
+
+`u8 x,`,// " ++ [128512]%N ++ runes_of_ascii " emoji
+	match Packet
+    as rootA 
+
+// @lengthOf(
+      // " ++ [128512]%N ++ runes_of_ascii " emoji
+    { 42 :	stringy 
+  // c
+  ,
+
+} 
+, trueish 
+,
+	@calculatedFrom(
+""x y"" ) @tag(
+42
+)char[  255
+] 
+x	@lengthOf( int ) , } packet
+
+    T
+{
+match
+float
+
+as
+o 
+{""a\""b""
+
+: T
+    , 
+	    // trailing space 
+// trailing space 
+	65535
+    :	roots ,
+    } , 
+} 
+packet  pack	{// trailing space 
+	  @leftPad (
+	'\x00'
+    ) 	 // 50% %s
+  	@calculatedFrom( 	 //
+
+""" ++ [233]%N ++ runes_of_ascii "t" ++ [233]%N ++ runes_of_ascii """
+
+)
+string As// a // b
+	@calculatedFrom(
+
+    ""CRC32"" 
+)
+	,} ")).
+Eval vm_compute in ("<<<M3794>>>" ++ check (runes_of_ascii "
+
+  // top
+  options 
+        // c0
+  {
+	    // c1
+    } 
+	    // c2
+	root
+// c3
+  packet
+    // c4
+u
+
+// c5
+    { 
+	    // c6
+	@rightPad
+    // c7
+( 
+
+// c8
+    )
+
+    // c9
+	@tag( 
+        // c10
+  42 
+        // c11
+	)
+        // c12
+
+@calculatedFrom(
+
+    // c13
+"""" 
+    // c14
+    ) 
+	// c15
+  repeat  
+      // c16
+u8
+    // c17
+	msg_type 
+
+    // c18
+, 
+// c19
+      @lengthOf( 
+        // c20
+stringy  
+      // c21
+	)  
+  // c22
+  @leftPad 
+	    // c23
+	  ( 
+    // c24
+	'\x00'
+
+// c25
+)
+        // c26
+	  @tag( 
+    // c27
+    4294967296
+        // c28
+    ) 
+
+    // c29
+
+A 
+	// c30
+    `crlf
+line`
+
+    // c31
+
+  , 
+    // c32
+  	zchar[ 
+    // c33
+  1
+
+    // c34
+	] 
+        // c35
+      asx
+    // c36
+	`" ++ [233]%N ++ runes_of_ascii "` 
+
+    // c37
+  	,
+	// c38
+  	charz
+// c39
+	,
+	// c40
+		}  
+      // c41
+")).
+Eval vm_compute in ("<<<M3751>>>" ++ check (runes_of_ascii "
+packet
+body 
+{char[
+    3 ]
+	u ,
+zchar[007 ]
+
+lengthOf
+@lengthOf( 	 // a // b
+  rootA)
+, 
+@leftPad
+(
+	'0' )
+
+    x { match	packetx
+
+as
+
+packetx
+
+    {
+[ 10]  :repeatCount
+	,
+
+    // a // b
+// packet A { u8 x, }
+[	// c
+		""1""
+    ,  ""a\\""
+    ]
+
+    :
+	rootA
+    ,
+	}
+
+,	}
+    ,
+    Logon
+
+    {
+trueish {  repeatCount i64_ 
+`tab	here` 
+, i64_{repeat
+        //x
+    // 50% %s
+  Logon
+    asx
+
+, 
+}
+
+    , //	t
+    u64
+    chars `say ""hi""`
+,	// trailing space 
+int64  trueish 
+,}
+,
+
+_x Foo
+,
+repeat uint64 int
+
+`doc`
+	, int64 chars ,
+},repeat	char[	0 	 // packet A { u8 x, }
+
+] Foo ,
+match 
+trueish
+
+    as
+_x {007
+
+    : // @lengthOf(
+  falsey  , // `tick` ""quote"" 'q'
+
+  255// " ++ [27880; 37322]%N ++ runes_of_ascii "
+
+  : u
+	,
+
+1 :
+
+msg_type
+	, 10
+
+    :  Packet	,
+
+},  repeat
+
+Z9_ `100% of %d`	, }
+")).
+Eval vm_compute in ("<<<M44>>>" ++ check (runes_of_ascii "//x
+options{
+x= ""1"" x= ""x y""
+    //
+    ; calculatedFrom= ""a	b"" calculatedFrom = zchar[
+// c
+// c
+00 ] ;// `tick` ""quote"" 'q'
+_x =false ;
+    } packet Logon // 50% %s
+{
+    } packet
+x_y_z { match
+    f32a as repeatCount { 10// 50% %s
+: zchar , } ,char[] options1`u8 x,`
+    ,} packet options1
+{@calculatedFrom( ""it's""  )@calculatedFrom(""packet"") // " ++ [128512]%N ++ runes_of_ascii " emoji
+repeat string repeatCount ``
+,char[] msg_type ,
+i16 Z9_ @calculatedFrom( ""\n"" // 50% %s
+)	, @leftPad (' ') repeat
+BodyLength calculatedFrom
+,
+char[
+    4294967296
+    ] u128 , u128 repeatCount`
+`, @lengthOf(rootA )int64 Pad
+    @calculatedFrom( ""x y""
+// " ++ [128512]%N ++ runes_of_ascii " emoji
+// 50% %s
+), @lengthOf(
+int)repeat As ,stringy
+`u8 x,` ,
+    @leftPad( '0' )uint32 // @lengthOf(
+A
+,
+}root packet string_ // " ++ [27880; 37322]%N ++ runes_of_ascii "
+{ }")).
+Eval vm_compute in ("<<<M1367>>>" ++ check (runes_of_ascii "root
+packet tag { T{
+//	t
+//
+zchar[
+4294967296
+]calculatedFrom , repeat// trailing space 
+charz{ repeat  i64_ stringy
+    ,falsey , } ,
+}
+, @tag( 65535)@lengthOf(options1 ) repeat
+string packetx
+`say ""hi""` , match
+Header // c
+as
+    charz {	65535:
+pack
+, } , i32 trueish @calculatedFrom( ""it's""	)
+    `u8 x,` ,
+    // c
+    @calculatedFrom(
+    ""x y"")	string len @lengthOf(
+    metadata ) ,zchar[ 255
+]  i64_
+// " ++ [27880; 37322]%N ++ runes_of_ascii "
+//	t
+@lengthOf(	A ) , @lengthOf(float ) pack @calculatedFrom("""") ,
+    rootA{repeat
+    i64 As // a // b
+, u8	Foo, char[
+// 50% %s
+// trailing space 
+00 ]trueish `` , match	string_ as
+calculatedFrom
+{ 255 : //	t
+T // " ++ [27880; 37322]%N ++ runes_of_ascii "
+,}	,
+}
+,  repeat // `tick` ""quote"" 'q'
+len
+`doc`, char[ /// triple
+3 ] pack`a\`//	t
+, }")).
+Eval vm_compute in ("<<<M493>>>" ++ check (runes_of_ascii "options {
+roots= true
+;/// triple
+MetaDataX =3 ;
+    trueish	= 10
+    //	t
+    } packet o  { @calculatedFrom(
+""" ++ [233]%N ++ runes_of_ascii "t" ++ [233]%N ++ runes_of_ascii """ ) match calculatedFrom as Foo { 1
+: leftPad
+,7 :
+    Foo[	""" ++ [233]%N ++ runes_of_ascii "t" ++ [233]%N ++ runes_of_ascii """ ] :roots //	t
+,
+}
+    , @calculatedFrom( ""\n""	) @tag( 7	)	@tag( 0123456789) match Header as asx { 10 //	t
+:
+    pack//
+,42 :
+// trailing space 
+// c
+asx, [ 0 ]
+    :
+leftPad , ""CRC32"" :	stringy
+, }	, @tag( 0 )
+u128@lengthOf(
+    calculatedFrom) `" ++ [28040; 24687; 31867; 22411]%N ++ runes_of_ascii "`,zchar[ // `tick` ""quote"" 'q'
+42 ] i64_ // a // b
+@lengthOf(	u128 )
+    `line1
+line2`
+    ,} root packet x_y_z
+    {
+repeat
+    zchar[255
+    ]
+leftPad ,BodyLength
+, @calculatedFrom( ""x y"") int8 /// triple
+o @calculatedFrom( // @lengthOf(
+""\" ++ [233]%N ++ runes_of_ascii """ )
+,} // " ++ [27880; 37322]%N)).
+Eval vm_compute in ("<<<M3427>>>" ++ check (runes_of_ascii "packet MDSnapshotZZ // c1a
   // c1b
-LittleEndian // c2a
-  // c2b
-= true // c4a
+{ // c2
+u8 // c3
+a // c4a
   // c4b
-; StringPrefixLenType
-    // c6
-= // c7a
-  // c7b
-u16 // c8a
-  // c8b
-; ArrayPrefixLenType
-    // c10
-= // c11a
+, // c5a
+  // c5b
+} // c6
+packet
+    // c7
+OrderACK
+    // c8
+{
+    // c9
+u16 b // c11a
   // c11b
-u8 // c12a
-  // c12b
-; // c13
-FixedStringPadChar // c14
-= // c15a
-  // c15b
-'0' // c16a
-  // c16b
+, // c12
+} packet // c14
+HTTPServerInfo { string // c17a
+  // c17b
+s // c18
+, // c19
+} // c20a
+  // c20b
+root packet // c22
+FIXMsg // c23
+{ // c24a
+  // c24b
+u8 // c25
+KType // c26a
+  // c26b
+, // c27
+MDSnapshotZZ , repeat // c30a
+  // c30b
+OrderACK // c31a
+  // c31b
+, // c32a
+  // c32b
+match
+    // c33
+KType // c34a
+  // c34b
+as
+    // c35
+Body // c36a
+  // c36b
+{ 1
+    // c38
+: // c39
+HTTPServerInfo // c40
+, // c41
+2
+    // c42
+: // c43
+OrderACK // c44
+,
+    // c45
+} , } // c48a
+  // c48b
+")).
+Eval vm_compute in ("<<<M341>>>" ++ check (runes_of_ascii "packet  repeatCount{
+repeat uint16 msg_type ,match// c
+u128 as // `tick` ""quote"" 'q'
+MetaDataX {// c
+[ 007
+,	""// no comment""
+    ] :
+//x
+// " ++ [27880; 37322]%N ++ runes_of_ascii "
+string_,0
+:
+    // packet A { u8 x, }
+    int , [42 ,
+    ""`tick`"" ,
+0123456789 , ""\" ++ [233]%N ++ runes_of_ascii """
+,	""1""	,
+""packet"" ,
+// 50% %s
+// c
+255 ,
+""{,}"" ] : crc // " ++ [27880; 37322]%N ++ runes_of_ascii "
+,
+0123456789 : rootA
+    // packet A { u8 x, }
+    [ ""\n""
+    ] :  charz ,
+    [ ""packet"" ,10 ]
+:T
+, }
+    , } // trailing space 
+packet options1 { @calculatedFrom(""\" ++ [233]%N ++ runes_of_ascii """
+) char[]o
+`doc`
+, }
+    packet repeatCount { char[
+    255 ] metadata @calculatedFrom( ""`tick`"")	,
+f32a {	u128 packetx , MetaDataX msg_type	,char[ 65535 ] falsey`
+` ,
+    }
+    ,
+}")).
+Eval vm_compute in ("<<<M503>>>" ++ check (runes_of_ascii "MetaData	x_y_z
+{
+    // " ++ [128512]%N ++ runes_of_ascii " emoji
+    char[
+1 ]Pad , } packet
+_x{ o,//
+repeat int8 // c
+MetaDataX , zchar[ 42 ] Z9_
+    ,	@leftPad ( '\x00')uint64 string_ `tab	here` ,
+    int16 T , @lengthOf( matchKey )char crc // trailing space 
+@lengthOf(  asx ) , @rightPad ( // 50% %s
+'0') x_y_z`line1
+line2` ,
+    } options{ roots= char[	4294967296
+]; } packet// a // b
+string_ { packetx@lengthOf(
+_x
+) ,
+repeatCount
+@calculatedFrom( ""a	b""
+) ,
+// 50% %s
+// @lengthOf(
+match Header as pack
+    {""it's"" : zchar// @lengthOf(
+, }	, @lengthOf(
+trueish
+) @rightPad	( ) @lengthOf(Z9_ )
+u8 trueish
+//x
+// c
+, }MetaData T { }
+// " ++ [27880; 37322]%N ++ runes_of_ascii "
+")).
+Eval vm_compute in ("<<<M1303>>>" ++ check (runes_of_ascii "root
+    //x
+    packet matchKey {
+    @tag(	00
+    )
+    // a // b
+    int
+    @calculatedFrom(""" ++ [128512]%N ++ runes_of_ascii """ ),  rootA // @lengthOf(
+A , @lengthOf( MetaDataX	) match chars // trailing space 
+as // packet A { u8 x, }
+Pad /// triple
+{
+// @lengthOf(
+// @lengthOf(
+0 :msg_type , """": u}, } root
+    //x
+    packet u8x  {
+int64 calculatedFrom
+// @lengthOf(
+/// triple
+@lengthOf( Packet
+) ,	@calculatedFrom( ""\n""// c
+)	a1
+// `tick` ""quote"" 'q'
+//x
+lengthOf, } options { roots
+// trailing space 
+//
+=""CRC32"" //	t
+;  Packet=char[ 0123456789 ]; float = u32
+    ; Packet = '0' // " ++ [128512]%N ++ runes_of_ascii " emoji
+; metadata = true;
+    }
+")).
+Eval vm_compute in ("<<<M292>>>" ++ check (runes_of_ascii "packet // " ++ [128512]%N ++ runes_of_ascii " emoji
+a1 {
+@rightPad (
+    //	t
+    '\x00' )repeat string
+x `" ++ [28040; 24687; 31867; 22411]%N ++ runes_of_ascii "` // a // b
+,
+    }packet i8i8 {zchar[  42 ] matchKey @calculatedFrom(""CRC32"")`it's` ,_x
+    @calculatedFrom( ""x y""	),float32 Logon @lengthOf( matchKey
+    ) , }
+MetaData Foo { //x
+Foo
+T, }root packet pack	{ //
+@calculatedFrom( ""1"" )Foo `" ++ [28040; 24687; 31867; 22411]%N ++ runes_of_ascii "`,
+    @tag( //
+00)u64 trueish ,repeat leftPad float `say ""hi""`
+, i64 u @calculatedFrom( """" ) , }	MetaData o {
+char[]i64_ ,body
+    BodyLength
+    `" ++ [233]%N ++ runes_of_ascii "`	,
+string
+Pad
+`100% of %d`
+    , calculatedFrom BodyLength`say ""hi""` , zchar[10 ] x , i64 falsey, }
+")).
+Eval vm_compute in ("<<<M225>>>" ++ check (runes_of_ascii "
+options
+    // @lengthOf(
+    { } options {  } packet asx {@calculatedFrom(""a\\"") repeat int32
+len	, @calculatedFrom( ""{,}"" ) @lengthOf( zchar
+    // @lengthOf(
+    ) match repeatCount	as f32a {
+    0123456789
+: msg_type, // " ++ [27880; 37322]%N ++ runes_of_ascii "
+4294967296 : pack  , }	, @tag(
+    65535
+    //x
+    )falsey metadata ,match msg_type as pack
+    {[0 ,
+    7
+    ] :
+    f32a,
+    // 50% %s
+    },
+match Foo as Foo
+// 50% %s
+// a // b
+{
+4294967296:options1 , } , }
+packet uint8x	{@rightPad( '0' )
+string A @lengthOf( leftPad)/// triple
+`
+` , } packet
+    rootA {  }
+")).
+Eval vm_compute in ("<<<M333>>>" ++ check (runes_of_ascii "  root packet leftPad
+    // a // b
+    { uint8x
+    @lengthOf(
+MetaDataX	) ,repeat // packet A { u8 x, }
+A ,  @tag(
+    00	)	match Pad
+    // a // b
+    as roots { 10  : x_y_z ,  00 :
+    /// triple
+    len [ ""// no comment"" ] :T }, a1 Header `say ""hi""` , @rightPad(
+    '\x00'
+) char[]
+int @calculatedFrom(  """") ,
+// c
+// c
+calculatedFrom {BodyLength{roots@lengthOf( packetx // @lengthOf(
+),
+repeat string tag // " ++ [27880; 37322]%N ++ runes_of_ascii "
+,} ,options1 @lengthOf( Packet ) // `tick` ""quote"" 'q'
+, MetaDataX
+@calculatedFrom( ""a	b"") ,} ,
+} //")).
+Eval vm_compute in ("<<<M287>>>" ++ check (runes_of_ascii "// " ++ [128512]%N ++ runes_of_ascii " emoji
+MetaData
+len// " ++ [27880; 37322]%N ++ runes_of_ascii "
+{ chars len  ,u128 trueish`
+`
+// trailing space 
+//	t
+,
+    // packet A { u8 x, }
+    int8 pack //x
+, zchar[ 00 ]
+    // c
+    repeatCount
+    `it's`
+, zchar[ 42
+]calculatedFrom /// triple
+,lengthOf Pad , }MetaData lengthOf {
+//	t
+// @lengthOf(
+x_y_z
+//	t
+//	t
+asx ,}packet x_y_z { repeat uint16 x_y_z
+    , @tag( 1
+// a // b
+// @lengthOf(
+) match u128 as // `tick` ""quote"" 'q'
+rootA { 3
+    : tag
+    , ""\n"":
+    // " ++ [128512]%N ++ runes_of_ascii " emoji
+    pack , [ """ ++ [233]%N ++ runes_of_ascii "t" ++ [233]%N ++ runes_of_ascii """, //
+7 ] :
+    T , } , }")).
+Eval vm_compute in ("<<<M3856>>>" ++ check (runes_of_ascii "packet tag {
+    uint64 _x,
+    @lengthOf(rootA)
+    int32 calculatedFrom,
+    /// triple
+    /// triple
+    uint32 Packet `say ""hi""`,
+    @tag(255)
+    len @lengthOf(Foo),
+    BodyLength,
+    zchar[42] packetx @lengthOf(a1),
+    i16 packetx,
+    @leftPad(' ')
+    // @lengthOf(
+    matchKey {
+        zchar[007] pack,
+        i32 chars,
+        //
+        Packet {
+            repeat uint16 options1 `100% of %d`,
+        },
+        /// triple
+        repeat msg_type,
+    },
+}")).
+Eval vm_compute in ("<<<M369>>>" ++ check (runes_of_ascii "
+root packet repeatCount
+    {} options { //
+zchar = // a // b
+false	; // " ++ [128512]%N ++ runes_of_ascii " emoji
+crc  =	""// no comment""; leftPad
+= '\x00'; } packet pack
+{	repeat BodyLength //x
+{ T
+@lengthOf( Foo
+), } ,Z9_
+    matchKey ,match
+    x_y_z as Foo	{[""" ++ [128512]%N ++ runes_of_ascii """
+    ] :// " ++ [27880; 37322]%N ++ runes_of_ascii "
+u
+    ,
+    // packet A { u8 x, }
+    """ ++ [233]%N ++ runes_of_ascii "t" ++ [233]%N ++ runes_of_ascii """:
+tag , [ ""\n"" ] : body ,  } ,char[] metadata // trailing space 
+`u8 x,` ,
+match
+    pack as trueish //x
+{	"""" : Z9_ // 50% %s
+, ""\" ++ [233]%N ++ runes_of_ascii """ :As
+    // c
+    }
+    , }
+")).
+Eval vm_compute in ("<<<M4078>>>" ++ check (runes_of_ascii "packet u8x {
+    pack @calculatedFrom(""a	b""),
+}
+
+packet u {
+    calculatedFrom @calculatedFrom(""\" ++ [233]%N ++ runes_of_ascii """) `say ""hi""`,
+    trueish @lengthOf(calculatedFrom),
+    u8 trueish ``,
+    zchar[0123456789] int @calculatedFrom(""packet""),
+    @leftPad('0')
+    // trailing space 
+    /// triple
+    @tag(007)
+    match matchKey as _x {
+        ""packet"" : Header,
+    },
+    char[] asx @lengthOf(f32a),
+    options1 @lengthOf(matchKey) `a\`,
+}// " ++ [128512]%N ++ runes_of_ascii " emoji")).
+Eval vm_compute in ("<<<M926>>>" ++ check (runes_of_ascii "packet uint8x{ @tag(7 ) @lengthOf( asx
+)
+    @tag( 0) zchar[ 65535
+    // trailing space 
+    ]
+    // trailing space 
+    f32a `line1
+line2`
+, string_
+    , @tag( 0
+) @calculatedFrom( ""a	b""
+    /// triple
+    ) @tag( 007 )
+match
+crc as // @lengthOf(
+stringy
+    {""`tick`"" :
+As ""CRC32"":	metadata ,[// `tick` ""quote"" 'q'
+""`tick`""]
+:	stringy,
+[ ""\" ++ [233]%N ++ runes_of_ascii """ ] : x""" ++ [233]%N ++ runes_of_ascii "t" ++ [233]%N ++ runes_of_ascii """ :roots ,
+},
+char[] trueish@lengthOf(Header ) ``	,
+}
+
+")).
+Eval vm_compute in ("<<<M1261>>>" ++ check (runes_of_ascii "packet string_
+    { @lengthOf( metadata ) zchar[ 0123456789 ] A
+// @lengthOf(
+// `tick` ""quote"" 'q'
+, rootA zchar// packet A { u8 x, }
+, u32 A
+    /// triple
+    @calculatedFrom(	""abc"" )
+,	@calculatedFrom(""" ++ [28040; 24687]%N ++ runes_of_ascii """ )
+    match chars as body // a // b
+{ ""// no comment""
+:
+float, 1 :
+    stringy
+, [ 1
+, 42	]
+    :roots
+    , """ ++ [28040; 24687]%N ++ runes_of_ascii """ :
+    a1, ""packet"" : repeatCount ,7
+    :
+    int , } // packet A { u8 x, }
+,}
+")).
+Eval vm_compute in ("<<<M4409>>>" ++ check (runes_of_ascii "options {
+    LittleEndian = true;
+    StringPrefixLenType = u16;
+    ArrayPrefixLenType = u64;
+    FixedStringPadFromLeft = true;
+    FixedStringPadChar = ' ';
+}
+
+packet Reject {
+    zchar[3] OrderId,
+    int16 Flags,
+    @leftPad(' ')
+    char[11] x,
+    u16 tag7,
+}
+
+packet Quote {
+    Reject,
+    char[] Qty,
+    repeat f32 f1,
+    zchar[5] Flags,
+}
+
+root packet Leg {
+    i32 Px,
+}")).
+Eval vm_compute in ("<<<M3789>>>" ++ check (runes_of_ascii "packet uint8x {
+    @tag(7)
+    @lengthOf(asx)
+    @tag(0)
+    zchar[65535] f32a `line1
+    line2`,
+    string_,
+    @tag(0)
+    @calculatedFrom(""a	b"")
+    @tag(007)
+    match crc as stringy {
+        ""`tick`"" : As,
+        ""CRC32"" : metadata,
+        [""`tick`""] : stringy,
+        [""\" ++ [233]%N ++ runes_of_ascii """] : x,
+        """ ++ [233]%N ++ runes_of_ascii "t" ++ [233]%N ++ runes_of_ascii """ : roots,
+    },
+    char[] trueish @lengthOf(Header) ``,
+}")).
+Eval vm_compute in ("<<<M3521>>>" ++ check (runes_of_ascii "
+root 
+packet  u8x
+    {pack  @calculatedFrom( 
+""it's""  ),
+
+}	options {}	packet	// a // b
+	trueish {repeat
+f32
+charz  , 
+        //x
+  // " ++ [128512]%N ++ runes_of_ascii " emoji
+@rightPad  // packet A { u8 x, }
+( '\x00'
+) A
+
+    {uint8x
+@lengthOf(
+	lengthOf	)  , } ,
+    int
+
+    {
+
+    uint8 falsey
+	,}  , 
+@lengthOf( Z9_ )
+    repeat uint8
+
+    u
+    ,
+
+} 
+// 50% %s
+")).
+Eval vm_compute in ("<<<M3465>>>" ++ check (runes_of_ascii "  options {
+
+    LittleEndian=  true	;
+	FixedStringPadChar=
+    '0' ;
+	} packet Heartbeat { zchar[5] sym
+, 
+repeat char[	3
+    ]
+
+    OrderId, }
+
+root
+    packet
+
+    Quote  {
+
+u64
+
+    lastPx
+, repeat	u8
+
+venue,	Heartbeat 
+,InSym1	{
+
+    char[	3
+
+    ]
+
+    Acct, char[]
+	lastPx
+,  Heartbeat	, 
+repeat string
+x	,} ,}
+")).
+Eval vm_compute in ("<<<M4134>>>" ++ check (runes_of_ascii "
+packet
+
+    Header
+{  }
+	root 
+// " ++ [27880; 37322]%N ++ runes_of_ascii "
+	/// triple
+packet BodyLength
+{As {a1
+	{
+
+    char[	65535]
+crc	`two words` , msg_type ,
+
+} 
+,},
+
+    repeat Z9_ /// triple
+
+{
+T
+
+    ,  pack 
+,
+repeat tag  // " ++ [27880; 37322]%N ++ runes_of_ascii "
+    A
+    ,int64	// `tick` ""quote"" 'q'
+  f32a `u8 x,` ,}
+	,
+}packet
+    packetx	// a // b
+    {
+} 
+
+/// triple")).
+Eval vm_compute in ("<<<M1375>>>" ++ check (runes_of_ascii "MetaData // " ++ [128512]%N ++ runes_of_ascii " emoji
+o { }
+    packet string_ {
+@lengthOf(
+f32a ) @lengthOf( zchar )tag
+{T roots `" ++ [28040; 24687; 31867; 22411]%N ++ runes_of_ascii "`
+    // " ++ [128512]%N ++ runes_of_ascii " emoji
+    ,
+tag
+    packetx  `{ , }` ,
+    } , repeat string int ,@calculatedFrom( ""a\""b"" ) @leftPad(
+    '0'
+    )	u64 string_ `a\` , } packet  charz
+    {
+    uint32	options1
+`100% of %d` , }
+")).
+Eval vm_compute in ("<<<M659>>>" ++ check (runes_of_ascii "packet
+Z9_	{ char[] msg_type ,
+int
+    chars `{ , }` , @leftPad() match options1 as
+A { // `tick` ""quote"" 'q'
+""it's"" : len,[ """"	] : T ,  [
+00	] : calculatedFrom , 1
+:MetaDataX,
+    //
+    4294967296 : // a // b
+u
+,
+} ,
+repeat uint32 rootA
+    , f32
+    f32a `tab	here` , int
+    //x
+    ,}
+")).
+Eval vm_compute in ("<<<M3241>>>" ++ check (runes_of_ascii "// top
+MetaData
+    // c0
+Foo
+    // c1
+{
+    // c2
+zchar[
+    // c3
+0
+    // c4
+]
+    // c5
+matchKey
+    // c6
+,
+    // c7
+}
+    // c8
+options
+    // c9
+{
+    // c10
+lengthOf
+    // c11
+=
+    // c12
+i32
+    // c13
+u
+    // c14
+=
+    // c15
+00
+    // c16
 ;
     // c17
-} // c18a
-  // c18b
-packet // c19a
-  // c19b
-Logout // c20
-{ // c21
-repeat // c22a
-  // c22b
-i16 // c23a
-  // c23b
-f1
-    // c24
-,
-    // c25
-string // c26a
-  // c26b
-Ref
-    // c27
-, // c28a
-  // c28b
-@rightPad // c29a
-  // c29b
-( // c30a
-  // c30b
-'\x00' ) char[ 9 // c34a
-  // c34b
-]
-    // c35
-Tail // c36
-, repeat
-    // c38
-char[ // c39
-6 // c40a
-  // c40b
-] Flags ,
-    // c43
-repeat
-    // c44
-char[ // c45a
-  // c45b
-3 ] // c47a
-  // c47b
-Acct // c48a
-  // c48b
-,
-    // c49
 }
-    // c50
-packet
-    // c51
-Party
-    // c52
-{ // c53a
-  // c53b
-char[ // c54
-2 // c55
-] // c56a
-  // c56b
-f1 // c57
-, u8 // c59a
-  // c59b
-Side2 // c60a
-  // c60b
-, // c61
-@leftPad // c62
-( // c63
-' ' // c64
-) // c65
-char[ 1 // c67a
-  // c67b
-] // c68
-venue // c69
-, // c70
-} // c71a
-  // c71b
-packet Order // c73a
-  // c73b
-{ // c74
-repeat i64 // c76
-Ref , InPx62 // c79
-{ // c80a
-  // c80b
-i32
-    // c81
-OrderId // c82
-, // c83
-} // c84a
-  // c84b
-, InNote53 // c86
-{ // c87
-InClordid80 // c88
-{ char[] // c90a
-  // c90b
-Acct // c91
-,
-    // c92
-u32 Px // c94a
-  // c94b
-, // c95
-repeat // c96a
-  // c96b
-Party , // c98a
-  // c98b
-} , // c100
-InPrice12 {
-    // c102
-u8 // c103a
-  // c103b
-pad0 , }
-    // c106
-, // c107a
-  // c107b
-repeat // c108a
-  // c108b
-Logout // c109
-, InFlags23 { // c112a
-  // c112b
-repeat // c113
-string // c114a
-  // c114b
-seqNo
-    // c115
-,
-    // c116
-string
-    // c117
-sym // c118
-, // c119
-int8 // c120
-Flags // c121a
-  // c121b
-,
-    // c122
-zchar[ // c123a
-  // c123b
-5 // c124a
-  // c124b
-] lastPx // c126
-, zchar[ // c128
-6 // c129a
-  // c129b
-] Px // c131
-, // c132a
-  // c132b
-} ,
-    // c134
-char[ // c135a
-  // c135b
-10 // c136a
-  // c136b
-]
-    // c137
-Acct // c138a
-  // c138b
-, InPx18 // c140a
-  // c140b
-{ // c141
-zchar[
-    // c142
-2 ]
-    // c144
-count
-    // c145
-, // c146
-Party // c147a
-  // c147b
-, // c148a
-  // c148b
-} , // c150a
-  // c150b
-}
-    // c151
-, // c152
-char[ // c153
-5 // c154
-] // c155
-Side2 , // c157a
-  // c157b
-char[ // c158
-1
-    // c159
-]
-    // c160
-Acct , } // c163a
-  // c163b
-root packet // c165a
-  // c165b
-Ack {
-    // c167
-u32 // c168
-Tail
-    // c169
-, repeat char[ // c172a
-  // c172b
-4 // c173a
-  // c173b
-] // c174
-msgKind // c175a
-  // c175b
-, // c176a
-  // c176b
-repeat
-    // c177
-Logout
-    // c178
-,
-    // c179
-}
-    // c180
+    // c18
 ")).
-Eval vm_compute in ("<<<M1681>>>" ++ check (runes_of_ascii "root packet zchar {
-    repeatCount @lengthOf(asx),
-    match string_ as o {
-        7 : packetx,
-        7 : Pad,
-    },// packet A { u8 x, }
-    zchar[65535] T @calculatedFrom(""" ++ [128512]%N ++ runes_of_ascii """),
-    tag @lengthOf(u) `crlf
-        line`,
-    @calculatedFrom("""")
-    _x @calculatedFrom(""a	b"") `// not a comment`,
-    match Z9_ as float {
-        0123456789 : calculatedFrom,
-        ""{,}"" : u,
-        //	t
-    },
-    @leftPad()
-    @tag(255)
-    @lengthOf(i8i8)
-    match tag as trueish {
-        4294967296 : uint8x,
-        [65535] : u8x,
-        10 : i64_,
-        """" : metadata,
-    },
-    int64 T,
+Eval vm_compute in ("<<<M828>>>" ++ check (runes_of_ascii "packet u
+{
+    @lengthOf( f32a
+// @lengthOf(
+//x
+) match lengthOf as tag
+{00 : As	, } //
+,msg_type `" ++ [28040; 24687; 31867; 22411]%N ++ runes_of_ascii "`, @rightPad(  '0' )	uint8x `it's`
+    , @lengthOf( stringy) options1	{	BodyLength@calculatedFrom("""" )
+    , BodyLength
+int`u8 x,`,
+zchar[
+    3]
+    As `a\` , } , }")).
+Eval vm_compute in ("<<<M1652>>>" ++ check (runes_of_ascii "// 50% %s
+packet	a1
+    { zchar[
+// a // b
+// 50% %s
+007]
+T `it's`
+    ,@rightPad
+    // a // b
+    (
+'\x00')
+    o repeatCount , }  packet Logon {  }packet	Logon //x
+{ repeat // " ++ [128512]%N ++ runes_of_ascii " emoji
+uint16 u128
+    //
+    `a\` `a\`,
+falsey
+@calculatedFrom(""packet"" ) ,
+    } 	 ")).
+Eval vm_compute in ("<<<M1612>>>" ++ check (runes_of_ascii "// 50% %s
+packet	a1
+    { zchar[
+// a // b
+// 50% %s
+007]
+T `it's`
+    ,@rightPad
+    // a // b
+    (
+'\x00')
+    o repeatCount , }  packet Logon { {  }packet	Logon //x
+{ repeat // " ++ [128512]%N ++ runes_of_ascii " emoji
+uint16 u128
+    //
+    `a\`,
+falsey
+@calculatedFrom(""packet"" ) ,
+    } 	 ")).
+Eval vm_compute in ("<<<M1548>>>" ++ check (runes_of_ascii "// 50% %s
+packet	a1
+    { zchar[
+// a // b
+// 50% %s
+007]
+`it's` T
+    ,@rightPad
+    // a // b
+    (
+'\x00')
+    o repeatCount , }  packet Logon {  }packet	Logon //x
+{ repeat // " ++ [128512]%N ++ runes_of_ascii " emoji
+uint16 u128
+    //
+    `a\`,
+falsey
+@calculatedFrom(""packet"" ) ,
+    } 	 ")).
+Eval vm_compute in ("<<<M472>>>" ++ check (runes_of_ascii "packet x_y_z  {@lengthOf( leftPad)
+float {	int32 Header , matchKey asx
+,
+    // " ++ [27880; 37322]%N ++ runes_of_ascii "
+    match metadata as pack
+    {""\" ++ [233]%N ++ runes_of_ascii """: packetx, ""CRC32"":	Packet  , 255
+// " ++ [27880; 37322]%N ++ runes_of_ascii "
+/// triple
+:f32a""// no comment""
+    :	len ""// no comment"" // " ++ [27880; 37322]%N ++ runes_of_ascii "
+:	float, 007 :
+Header , } ,} ,
+    }
+")).
+Eval vm_compute in ("<<<M272>>>" ++ check (runes_of_ascii "  packet	i64_ {
+_x
+i64_ `// not a comment` , @rightPad	(
+)
+@calculatedFrom( ""`tick`"" // packet A { u8 x, }
+)match _x as  Logon { [ ""a	b"" ]	: metadata , 1 :
+o 00 :float	,},	@tag( 1
+    ) @lengthOf(matchKey ) zchar[ 255 ]	options1`tab	here` , } // @lengthOf(")).
+Eval vm_compute in ("<<<M3563>>>" ++ check (runes_of_ascii "root packet BodyLength {
+    @tag(65535)
+    zchar[7] msg_type,
+    MetaDataX @calculatedFrom(""// no comment""),
+    // packet A { u8 x, }
+    // c
+}
+
+root packet stringy {
+    @tag(00)
+    repeat pack leftPad `tab	here`,
+    repeat body,
+}
+
+MetaData a1 {
+}")).
+Eval vm_compute in ("<<<M4008>>>" ++ check (runes_of_ascii "root packet len {
+    repeat zchar[4294967296] f32a,//
+    x_y_z @lengthOf(trueish) `two words`,
+    //
+    @rightPad()
+    @calculatedFrom(""\" ++ [233]%N ++ runes_of_ascii """)
+    string chars `say ""hi""`,
+    @rightPad(' ')
+    uint8 options1 @calculatedFrom(""1"") `say ""hi""`,
+}")).
+Eval vm_compute in ("<<<M1399>>>" ++ check (runes_of_ascii "packet  _x { @lengthOf( len )
+    @lengthOf( A
+)@lengthOf( //x
+Header	)
+    // packet A { u8 x, }
+    crc rootA
+    `two words` , } MetaData
+body
+    { zchar Logon ,  pack As	,
+string _x `" ++ [28040; 24687; 31867; 22411]%N ++ runes_of_ascii "` //x
+, i64 u  , char[] charz `say ""hi""`	,}")).
+Eval vm_compute in ("<<<M818>>>" ++ check (runes_of_ascii "
+packet
+    zchar { Logon a1 ,	u128
+`
+` , @lengthOf( charz ) i64 u8x
+    @lengthOf(
+    msg_type
+    ) `// not a comment`  ,
+repeat roots a1
+, asx msg_type`crlf
+line`
+,@tag(42 )
+    /// triple
+    u64 metadata `{ , }`  , }")).
+Eval vm_compute in ("<<<M4114>>>" ++ check (runes_of_ascii "MetaData Header {
+    // trailing space 
+    char[3] Logon,
+    falsey options1,
+    char[] f32a,
+    // `tick` ""quote"" 'q'
+    // " ++ [27880; 37322]%N ++ runes_of_ascii "
+    chars Z9_,
+    int16 zchar `
+        `,
+}
+
+MetaData i64_ {
+}
+
+// " ++ [27880; 37322]%N ++ runes_of_ascii "
+packet _x {
+}")).
+Eval vm_compute in ("<<<M972>>>" ++ check (runes_of_ascii "
+packet f32a {
+    @lengthOf( Header// trailing space 
+)
+packetx zchar `two words` // `tick` ""quote"" 'q'
+, @lengthOf( string_
+    ) char[]
+//
+// a // b
+_x `{ , }`,
+    repeatCount trueish
+    `crlf
+line` ,}")).
+Eval vm_compute in ("<<<M4098>>>" ++ check (runes_of_ascii "options
+{FixedStringPadChar  = 
+'0';
+	}
+
+packet	Q
+{  zchar[
+	4 ]  z  ,
+@rightPad (  '\x00'
+)
+	char[ 
+3
+]
+	n  , char[5
+
+    ]d, 
+} root
+packet
+R {Q
+    , zchar[8
+] 
+top,
+repeat zchar[2] zs 
+, }
+")).
+Eval vm_compute in ("<<<M4137>>>" ++ check (runes_of_ascii "
+// a // b
+
+  packet 
+    // @lengthOf(
+    matchKey {
+
+    repeat  Z9_
+    {
+a1 	 //
+@calculatedFrom( """ ++ [28040; 24687]%N ++ runes_of_ascii """
+	/// triple
+
+  /// triple
+
+	)
+    , 
+} ,	}	root 
+packet
+    T{ 	 //
+    	}
+
+")).
+Eval vm_compute in ("<<<M541>>>" ++ check (runes_of_ascii "MetaData
+    a1
+// @lengthOf(
+// " ++ [27880; 37322]%N ++ runes_of_ascii "
+{ int32 i64_ // " ++ [128512]%N ++ runes_of_ascii " emoji
+,
+char[] trueish `doc`
+    , char[] lengthOf
+`100% of %d` , // 50% %s
+int8 Header , char[] chars, } // trailing space ")).
+Eval vm_compute in ("<<<M3927>>>" ++ check (runes_of_ascii "packet x_y_z {
+}
+
+MetaData Logon {
+    pack chars `" ++ [233]%N ++ runes_of_ascii "`,
+}
+
+options {
+    len = 00
 }
 
 root packet len {
-    @tag(0)
-    Logon,
-    @tag(255)
-    repeat u64 packetx `it's`,
-    @tag(4294967296)
-    zchar[007] repeatCount `a\`,
-    char[4294967296] asx @calculatedFrom(""it's""),
+    char[7] asx,
 }
 
-root packet asx {
-    uint16 options1 @lengthOf(matchKey) `it's`,
-}
-
-root packet Logon {
-    @lengthOf(asx)
-    @calculatedFrom(""packet"")
-    Z9_ @calculatedFrom(""" ++ [28040; 24687]%N ++ runes_of_ascii """),
-    @tag(007)
-    zchar[0123456789] i64_,
-    msg_type `line1
-        line2`,
-    repeat zchar[007] Pad `
-        `,
-    falsey {
-        chars lengthOf ``,
-        match Header as lengthOf {
-            """ ++ [233]%N ++ runes_of_ascii "t" ++ [233]%N ++ runes_of_ascii """ : falsey,
-            42 : uint8x,
-            [
-                007, ""abc"", ""abc"", ""a\\"", 65535,
-                ""a\""b"", 42, ""{,}""
-            ] : charz,
-        },
-        int64 Foo,
-        Z9_ @lengthOf(int) `it's`,
-    },
-    @rightPad()
-    // trailing space 
-    string As @calculatedFrom(""" ++ [28040; 24687]%N ++ runes_of_ascii """),
-    // c
-    match matchKey as repeatCount {
-        4294967296 : msg_type,
-        """ ++ [28040; 24687]%N ++ runes_of_ascii """ : zchar,
-        3 : u8x,
-        """" : asx,
-    },
+MetaData MetaDataX {
+    char Foo `100% of %d`,
 }")).
-Eval vm_compute in ("<<<M1867>>>" ++ check (runes_of_ascii "//	t
-root packet packetx {
-    @lengthOf(BodyLength)
-    zchar[00] uint8x @lengthOf(i8i8) `tab	here`,
-    @lengthOf(x_y_z)
-    @leftPad('0')
-    @lengthOf(Header)
-    f32 pack @calculatedFrom(""a\\""),
-    @calculatedFrom(""`tick`"")
-    //x
-    // " ++ [27880; 37322]%N ++ runes_of_ascii "
-    lengthOf MetaDataX,
-    @lengthOf(Packet)
-    lengthOf @calculatedFrom(""\n"") `doc`,
-    @rightPad()
-    char[0123456789] float,
-    @lengthOf(options1)
-    //x
-    //	t
-    @tag(7)
-    @tag(007)
-    crc int,
-    chars @calculatedFrom(""" ++ [233]%N ++ runes_of_ascii "t" ++ [233]%N ++ runes_of_ascii """),
-    @calculatedFrom(""CRC32"")
-    repeat char[] packetx `two words`,
+Eval vm_compute in ("<<<M1369>>>" ++ check (runes_of_ascii "
+root packet	u128 {repeat// 50% %s
+metadata , } packet
+trueish { zchar[ 0123456789 ] roots, }	packet leftPad {len  msg_type , MetaDataX
+pack ,// trailing space 
 }
-
-packet T {
-}
-
-packet T {
-    char[10] u128,
-    @lengthOf(calculatedFrom)
-    chars o,
-    @calculatedFrom(""\n"")
-    match pack as Logon {
-        [""// no comment"", 255, 42, ""CRC32"", ""// no comment""] : asx,
-        ""it's"" : msg_type,
-        // `tick` ""quote"" 'q'
-        0123456789 : msg_type,
-        255 : len,
-    },
-    match chars as int {
-        [00, 42, 42] : x,
-        4294967296 : i64_,
-        [""a	b"", 007, """ ++ [128512]%N ++ runes_of_ascii """, ""// no comment""] : f32a,
-        42 : packetx,
-    },/// triple
-    crc {
-        a1 `" ++ [233]%N ++ runes_of_ascii "`,
-    },
-    @tag(3)
-    /// triple
-    zchar[7] o `
-    `,
-}
-
-packet roots {
-    u64 i64_ ``,
-}")).
-Eval vm_compute in ("<<<M1858>>>" ++ check (runes_of_ascii "packet u128 {
-    @lengthOf(x_y_z)
-    @lengthOf(stringy)
-    @lengthOf(_x)
-    zchar[4294967296] asx @calculatedFrom(""\" ++ [233]%N ++ runes_of_ascii """) `
-    `,
-    char[0] matchKey,
-    rootA u128,
-    metadata metadata,
-    zchar[3] string_ `" ++ [233]%N ++ runes_of_ascii "`,
-    // `tick` ""quote"" 'q'
-    // " ++ [27880; 37322]%N ++ runes_of_ascii "
-    @calculatedFrom(""a	b"")
-    char roots `" ++ [28040; 24687; 31867; 22411]%N ++ runes_of_ascii "`,
-    repeat zchar[10] pack `
-    `,
-    @calculatedFrom(""{,}"")
-    @lengthOf(Foo)
-    packetx {
-        // " ++ [128512]%N ++ runes_of_ascii " emoji
-        match i8i8 as Header {
-            255 : Z9_,
-            """ ++ [233]%N ++ runes_of_ascii "t" ++ [233]%N ++ runes_of_ascii """ : tag,
-            [
-                7, 1, ""// no comment"", ""// no comment"", 3,
-                """", 1
-            ] : lengthOf,
-            3 : asx,
-            [42, 0, 1] : Z9_,
-            10 : A,
-        },
-    },
-}
-
-root packet T {
-    /// triple
-    int32 roots `two words`,
-    stringy,
-    @rightPad('\x00')
-    float64 len @lengthOf(o),
-    match body as uint8x {
-        10 : tag,
-    },
-    repeat u8 Pad `" ++ [28040; 24687; 31867; 22411]%N ++ runes_of_ascii "`,
-    repeat char[] float,
-    @calculatedFrom(""packet"")
-    u16 x @lengthOf(u8x),
-}//x")).
-Eval vm_compute in ("<<<M256>>>" ++ check (runes_of_ascii "packet
-Pad // " ++ [27880; 37322]%N ++ runes_of_ascii "
-{ @tag(	65535 )repeat char[
-    //	t
-    4294967296 ] o
-    `u8 x,`  ,
-@calculatedFrom(""x y"" )
-metadata // c
-@lengthOf(repeatCount )`tab	here`	,} packet u128 {
-// packet A { u8 x, }
-// " ++ [128512]%N ++ runes_of_ascii " emoji
-repeat // " ++ [128512]%N ++ runes_of_ascii " emoji
-zchar[
-10 ]_x// " ++ [27880; 37322]%N ++ runes_of_ascii "
-, /// triple
-}
-options
-{ /// triple
-msg_type
-= true ;}packet tag {// c
-@tag(7 ) i32
-f32a @lengthOf( u8x)
-`two words`
-,
-string
-Foo  @lengthOf( Foo ) ,
-@rightPad(
-'0' ) match As as
-// @lengthOf(
-// `tick` ""quote"" 'q'
-crc // a // b
-{"""": float , //	t
-} , repeat i16 i8i8 , @rightPad/// triple
-(
-    '0' ) repeat u128
-    { i64 tag
-@calculatedFrom( """ ++ [28040; 24687]%N ++ runes_of_ascii """ ) ,i8i8
-@calculatedFrom( // " ++ [27880; 37322]%N ++ runes_of_ascii "
-""{,}""
-)`it's` , repeat string
-    rootA /// triple
-, }, repeat string
-chars,
-    asx, match calculatedFrom as
-calculatedFrom {
-    ""a\""b"" :  Logon ""a	b"" : asx } , char zchar @calculatedFrom( ""1""
-    )
-    `say ""hi""`
-    ,  }
-")).
-Eval vm_compute in ("<<<M201>>>" ++ check (runes_of_ascii "packet _x{
-    u ,@lengthOf( len)
-    match f32a as
-    Pad{""packet"": metadata,
-""CRC32"":x_y_z[ ""abc"" , ""{,}"" ] : Logon , }
-    // c
-    , zchar[ 7  ]	a1  ,
-    @tag( 65535 ) @tag(
-0123456789
-    )
-    //x
-    @lengthOf(
-asx ) repeat
-i16 // @lengthOf(
-tag `{ , }` // `tick` ""quote"" 'q'
-,
-    @leftPad	(
-'\x00' ) match i64_ as x { 0 :crc , [
-//	t
-// trailing space 
-""// no comment"" ] : uint8x ,
-    42
-// a // b
-// trailing space 
-:  string_	, 007 : trueish , [10 ]// " ++ [128512]%N ++ runes_of_ascii " emoji
-: rootA
-""" ++ [28040; 24687]%N ++ runes_of_ascii """
-    : // trailing space 
-len , } //
-, @rightPad (
-'\x00' // trailing space 
-) @tag(
-    //
-    00 ) @calculatedFrom( """ ++ [233]%N ++ runes_of_ascii "t" ++ [233]%N ++ runes_of_ascii """ ) // c
-char[]float
-@calculatedFrom(	""\n"" ),repeat f32 trueish `crlf
-line` ,} // @lengthOf(")).
-Eval vm_compute in ("<<<M299>>>" ++ check (runes_of_ascii "packet
-As {
-char[ 42	]//
-chars
-@calculatedFrom(
-""a\""b"" ) `it's` ,f32a falsey // trailing space 
-`// not a comment` , // " ++ [128512]%N ++ runes_of_ascii " emoji
-string
-trueish
-`" ++ [28040; 24687; 31867; 22411]%N ++ runes_of_ascii "` ,
-@lengthOf(  metadata )@tag(65535 ) @calculatedFrom( ""`tick`"" ) repeat Logon { x_y_z@lengthOf(lengthOf ),uint32  u
-, i64_ @calculatedFrom( ""CRC32""
-    )
-`a\` , asx @calculatedFrom( """" ) `u8 x,` ,	} ,
-u16
-    _x `` , repeat string_
-//
-// `tick` ""quote"" 'q'
-, options1 f32a , @calculatedFrom(""\n""// a // b
-) Packet @lengthOf( zchar
-    ) , }// `tick` ""quote"" 'q'
-options { // a // b
-} packet a1 { @tag( 0123456789)u8
-    uint8x	`{ , }` ,
-    u32// " ++ [27880; 37322]%N ++ runes_of_ascii "
-x_y_z `say ""hi""`
-, }
-")).
-Eval vm_compute in ("<<<M316>>>" ++ check (runes_of_ascii "options { falsey
-// " ++ [128512]%N ++ runes_of_ascii " emoji
-// " ++ [27880; 37322]%N ++ runes_of_ascii "
-= ""abc""; roots = // c
-'0'	;MetaDataX
-=
-// " ++ [128512]%N ++ runes_of_ascii " emoji
-// " ++ [128512]%N ++ runes_of_ascii " emoji
-'0' ; //
-crc= // " ++ [128512]%N ++ runes_of_ascii " emoji
-42 // a // b
-x	= '0'
-; } packet A {  repeat uint64 u128 , @tag(
-65535) int16
-options1
-    `line1
-line2` , } options { // packet A { u8 x, }
-int
-=
-""// no comment""msg_type  = zchar[ 0123456789
-    /// triple
-    ] ; calculatedFrom =// @lengthOf(
-u8	;
-    asx=
-""" ++ [28040; 24687]%N ++ runes_of_ascii """ ; body = 10 } options { charz = true	metadata = char[]
-; Packet// c
-=  true}
-packet Logon
-{
-@calculatedFrom( """ ++ [128512]%N ++ runes_of_ascii """ )
-    repeat packetx rootA,}
 
 ")).
-Eval vm_compute in ("<<<M1118>>>" ++ check (runes_of_ascii "// top
-options
-    // c0
-{ charz // c2
-= // c3a
-  // c3b
-f64 // c4a
-  // c4b
-; // c5a
-  // c5b
-metadata = // c7
-7 // c8a
-  // c8b
-; // c9a
-  // c9b
-} // c10
-options
-    // c11
-{
-    // c12
-u128 // c13
-=
-    // c14
-10 // c15
-options1 // c16
-= // c17
-true
-    // c18
-; zchar // c20
-=
-    // c21
-uint16
-    // c22
-; lengthOf
-    // c24
-=
-    // c25
-true
-    // c26
-;
-    // c27
-} // c28a
-  // c28b
-options // c29
-{
-    // c30
-len = // c32
-1
-    // c33
-}
-    // c34
+Eval vm_compute in ("<<<M2058>>>" ++ check (runes_of_ascii "MetaData BodyLength
+@calculatedFrom( int8 Foo
+, string
+    MetaDataX , float zchar ,pack options1
+,asx string_, }
+packet u8x {Foo@lengthOf(charz )
+`" ++ [28040; 24687; 31867; 22411]%N ++ runes_of_ascii "`,  }
 ")).
-Eval vm_compute in ("<<<M1918>>>" ++ check (runes_of_ascii "packet repeatCount {
-    @rightPad(' ')
-    char[42] Header @calculatedFrom(""a\\""),
-    // packet A { u8 x, }
-    // packet A { u8 x, }
-    @tag(10)
-    i64 options1 @calculatedFrom(""x y""),
-    Packet {
-        i64 lengthOf @calculatedFrom(""abc""),
-        repeat zchar[00] i64_ `u8 x,`,
-    },
-    string tag,
-    string o `" ++ [233]%N ++ runes_of_ascii "`,
-    repeat char[42] a1 `doc`,
-    string leftPad @calculatedFrom(""a\\""),
-}")).
-Eval vm_compute in ("<<<M113>>>" ++ check (runes_of_ascii "packet body { Pad {a1`crlf
-line`
-    , zchar[ 007] a1 ,char[10 ] x_y_z  ,
-repeat
-zchar[ 1  ] metadata `u8 x,` , } , string  trueish
-,repeat uint8x u ,	@tag( /// triple
-007 ) calculatedFrom
-{repeat BodyLength
-`doc` ,
-    }/// triple
-, int64 lengthOf,/// triple
-@lengthOf(
-leftPad) @calculatedFrom( ""x y"" ) @calculatedFrom( // " ++ [27880; 37322]%N ++ runes_of_ascii "
-""\" ++ [233]%N ++ runes_of_ascii """ )  falsey a1 , }")).
-Eval vm_compute in ("<<<M2108>>>" ++ check (runes_of_ascii "packet f32a {
-    repeat calculatedFrom u128,
-    T @calculatedFrom(""a\\"") `crlf
-    line`,
-    string charz,
-    @leftPad()
-    repeat pack T,
-}
-
-MetaData charz {
-}
-
-packet i8i8 {
-    A x,
-    match A as leftPad {
-        ""abc"" : msg_type,
-        ""a	b"" : T,
-    },
-    f64 i8i8,
-    char charz `" ++ [233]%N ++ runes_of_ascii "`,
-}// " ++ [128512]%N ++ runes_of_ascii " emoji")).
-Eval vm_compute in ("<<<M1218>>>" ++ check (runes_of_ascii "// top
-root // c0
-packet // c1
-matchKey // c2
-{ // c3
-zchar[ // c4
-3 // c5
-] // c6
-pack // c7
-@calculatedFrom( // c8
-""a	b"" // c9
-) // c10
-`doc` // c11
-, // c12
-} // c13
-options // c14
-{ // c15
-} // c16
-MetaData // c17
-A // c18
-{ // c19
-int8 // c20
-msg_type // c21
-, // c22
-} // c23
+Eval vm_compute in ("<<<M2199>>>" ++ check (runes_of_ascii "MetaData BodyLength
+{ int8 Foo
+, string
+    MetaDataX , float zchar ,pack options1
+,asx string_, }
+packet @leftpad u8x {Foo@lengthOf(charz )
+`" ++ [28040; 24687; 31867; 22411]%N ++ runes_of_ascii "`,  }
 ")).
-Eval vm_compute in ("<<<M639>>>" ++ check (runes_of_ascii "root packet tag { }  packet MetaDataX{char[007	]
-// c
-/// triple
-asx  @calculatedFrom( ""a\""b""
-) `say ""hi""`// " ++ [27880; 37322]%N ++ runes_of_ascii "
-,  @tag(4294967296 )
-    char[1//x
-] packetx @calculatedFrom(""a\""b""
-    ) ,
-// " ++ [128512]%N ++ runes_of_ascii " emoji
+Eval vm_compute in ("<<<M1615>>>" ++ check (runes_of_ascii "// 50% %s
+packet	a1
+    { zchar[
 // a // b
-@calculatedFrom(""" ++ [233]%N ++ runes_of_ascii "t" ++ [233]%N ++ runes_of_ascii """  ) repeat pack pack // " ++ [27880; 37322]%N ++ runes_of_ascii "
-,
-    } // c")).
-Eval vm_compute in ("<<<M659>>>" ++ check (runes_of_ascii "root packet tag { }  packet MetaDataX{char[007	]
-// c
-/// triple
-asx  @calculatedFrom( ""a\""b""
-) `say ""hi""`// " ++ [27880; 37322]%N ++ runes_of_ascii "
-,  @tag(4294967296 )
-    char[1//x
-] packetx @calculatedFrom(""a\""b""
-    ) ,
-// " ++ [128512]%N ++ runes_of_ascii " emoji
-// a // b
-@calculatedFrom(""" ++ [233]%N ++ runes_of_ascii "t" ++ [233]%N ++ runes_of_ascii """  ) repeat ~ pack // " ++ [27880; 37322]%N ++ runes_of_ascii "
-,
-    } // c")).
-Eval vm_compute in ("<<<M495>>>" ++ check (runes_of_ascii "root packet tag } {  packet MetaDataX{char[007	]
-// c
-/// triple
-asx  @calculatedFrom( ""a\""b""
-) `say ""hi""`// " ++ [27880; 37322]%N ++ runes_of_ascii "
-,  @tag(4294967296 )
-    char[1//x
-] packetx @calculatedFrom(""a\""b""
-    ) ,
-// " ++ [128512]%N ++ runes_of_ascii " emoji
-// a // b
-@calculatedFrom(""" ++ [233]%N ++ runes_of_ascii "t" ++ [233]%N ++ runes_of_ascii """  ) repeat pack // " ++ [27880; 37322]%N ++ runes_of_ascii "
-,
-    } // c")).
-Eval vm_compute in ("<<<M498>>>" ++ check (runes_of_ascii "root packet tag {   packet MetaDataX{char[007	]
-// c
-/// triple
-asx  @calculatedFrom( ""a\""b""
-) `say ""hi""`// " ++ [27880; 37322]%N ++ runes_of_ascii "
-,  @tag(4294967296 )
-    char[1//x
-] packetx @calculatedFrom(""a\""b""
-    ) ,
-// " ++ [128512]%N ++ runes_of_ascii " emoji
-// a // b
-@calculatedFrom(""" ++ [233]%N ++ runes_of_ascii "t" ++ [233]%N ++ runes_of_ascii """  ) repeat pack // " ++ [27880; 37322]%N ++ runes_of_ascii "
-,
-    } // c")).
-Eval vm_compute in ("<<<M1582>>>" ++ check (runes_of_ascii "options {
-    LittleEndian = true;
-}
-packet Sub {
-    u8 a,
-    @calculatedFrom(""CRC16"") u64 SubSum,
-}
-root packet Frame {
-    u16 MsgType,
-    u16 BodyLen @lengthOf(Body),
-    Sub Body,
-    string note,
-    @calculatedFrom(""CRC16"") u64 Checksum,
-    u8 tail,
-}
+// 50% %s
+007]
+T `it's`
+    ,@rightPad
+    // a // b
+    (
+'\x00')
+    o repeatCount , }  packet Logon")).
+Eval vm_compute in ("<<<M2186>>>" ++ check (runes_of_ascii "MetaData BodyLength
+{ int8 Foo
+, string
+    MetaDataX , float zchar ,pack options1
+,asx string_, }
+packet u8x {Foo@lengthOf(charz )
+`" ++ [28040; 24687; 31867; 22411]%N ++ runes_of_ascii "`,  } }
 ")).
-Eval vm_compute in ("<<<M598>>>" ++ check (runes_of_ascii "root packet tag { }  packet MetaDataX{char[007	]
-// c
-/// triple
-asx  @calculatedFrom( ""a\""b""
-) `say ""hi""`// " ++ [27880; 37322]%N ++ runes_of_ascii "
-,  @tag(4294967296 )
-    char[1//x
-] packetx ""a\""b""
-    ) ,
-// " ++ [128512]%N ++ runes_of_ascii " emoji
-// a // b
-@calculatedFrom(""" ++ [233]%N ++ runes_of_ascii "t" ++ [233]%N ++ runes_of_ascii """  ) repeat pack // " ++ [27880; 37322]%N ++ runes_of_ascii "
-,
-    } // c")).
-Eval vm_compute in ("<<<M1898>>>" ++ check (runes_of_ascii "  // " ++ [128512]%N ++ runes_of_ascii " emoji
-  MetaData  trueish
-	{ 
-	    // @lengthOf(
-	asx lengthOf
-	    // a // b
-  ,
-int8 	 // c
-  float
-
-    `it's`
-    ,  }
-MetaData  int{	int8  charz
-
-,
-
-}
-
-    packet
-    asx	{
-o
-@calculatedFrom( ""\" ++ [233]%N ++ runes_of_ascii """)
-,  }")).
-Eval vm_compute in ("<<<M1770>>>" ++ check (runes_of_ascii "
-root	packet 	 /// triple
-		Foo
-
-{	int32
-
-tag
-`doc`
-,
-
-    char[
-    0
-    ]  u8x
-`u8 x,`,charz
-
-charz
-
-,
-	@rightPad  (' '
-
-    )
-@tag(
-    3)
-@rightPad
-
-    ( '0'
-
-)repeat
+Eval vm_compute in ("<<<M604>>>" ++ check (runes_of_ascii "options { u8x=	true ; tag = // `tick` ""quote"" 'q'
 int16
-
-float,
-}
-
-")).
-Eval vm_compute in ("<<<M1903>>>" ++ check (runes_of_ascii "packet i64_ {
-    @tag(0123456789)
-    x_y_z @calculatedFrom(""it's""),
-    @rightPad(' ')
-    @tag(007)
-    leftPad {
-        zchar[00] Pad,
-    },
-    int32 _x @lengthOf(BodyLength),
-}")).
-Eval vm_compute in ("<<<M432>>>" ++ check (runes_of_ascii "packet
-    // `tick` ""quote"" 'q'
-    crc
-// packet A { u8 x, }
-//	t
-{
-u32 a1 ,
-    // trailing space 
-    roots
-charz //
-`two words`@tag(	}
-    MetaData int {
-} /// triple")).
-Eval vm_compute in ("<<<M689>>>" ++ check (runes_of_ascii "root packet len // trailing space 
-{
-// " ++ [27880; 37322]%N ++ runes_of_ascii "
-//	t
-char[10
-] metadata	@lengthOf( o $ ) `crlf
-line`,
-    @rightPad
-( ' '
-) string
-    Header @calculatedFrom( ""a\\""
-    ), }
-")).
-Eval vm_compute in ("<<<M446>>>" ++ check (runes_of_ascii "packet
-    // `tick` ""quote"" 'q'
-    crc
-// packet A { u8 x, }
-//	t
-{
-u32 a1 ,
-    // trailing space 
-    roots
-charz //
-`two words`,	}
-    MetaData { int
-} /// triple")).
-Eval vm_compute in ("<<<M422>>>" ++ check (runes_of_ascii "packet
-    // `tick` ""quote"" 'q'
-    crc
-// packet A { u8 x, }
-//	t
-{
-u32 a1 ,
-    // trailing space 
-    roots
-u32 //
-`two words`,	}
-    MetaData int {
-} /// triple")).
-Eval vm_compute in ("<<<M427>>>" ++ check (runes_of_ascii "packet
-    // `tick` ""quote"" 'q'
-    crc
-// packet A { u8 x, }
-//	t
-{
-u32 a1 ,
-    // trailing space 
-    roots
-charz //
-true,	}
-    MetaData int {
-} /// triple")).
-Eval vm_compute in ("<<<M1849>>>" ++ check (runes_of_ascii "packet A {
-    match k as n {
-        [
-            1, 22, 007, 4, 5,
-            66, 7, 8, 9, 10,
-            11
-        ] : B,
-        2 : C,
-    },
-}")).
-Eval vm_compute in ("<<<M1850>>>" ++ check (runes_of_ascii "root packet
-    matchKey{ zchar[ 
-3  ] 
-pack  @calculatedFrom(  ""a	b""  )
-
-    `doc` ,} options
-	{
-} MetaData  A {int8 msg_type	// c
-  	,	}
-")).
-Eval vm_compute in ("<<<M582>>>" ++ check (runes_of_ascii "root packet tag { }  packet MetaDataX{char[007	]
-// c
-/// triple
-asx  @calculatedFrom( ""a\""b""
-) `say ""hi""`// " ++ [27880; 37322]%N ++ runes_of_ascii "
-,  @tag(4294967296 )")).
-Eval vm_compute in ("<<<M254>>>" ++ check (runes_of_ascii "packet rootA {	}
-// `tick` ""quote"" 'q'
-/// triple
-options  {stringy
-    =
-0123456789
 ;
-T =42 ;
-string_ = ""a\""b""
-    ; }
-//
+    stringy =""a	b""
+    options1
+    = u64 ; repeatCount =""abc""
+    // 50% %s
+    }
 ")).
-Eval vm_compute in ("<<<M1240>>>" ++ check (runes_of_ascii "root packet matchKey { zchar[ 3 ] pack @calculatedFrom(
-// c
-""a	b"" ) `doc` , } options { } MetaData A { int8 msg_type , }")).
-Eval vm_compute in ("<<<M1677>>>" ++ check (runes_of_ascii "root packet matchKey {
-    zchar[3] pack @calculatedFrom(""a	b"") `doc`,
-}
-
-options {
-}
-
-MetaData A {
-    int8 msg_type,
-}")).
-Eval vm_compute in ("<<<M1908>>>" ++ check (runes_of_ascii "packet a1 {
-}
-
-options {
-    MetaDataX = ""`tick`""
-    uint8x = false;
-    f32a = zchar[00];
-}// `tick` ""quote"" 'q'")).
-Eval vm_compute in ("<<<M1824>>>" ++ check (runes_of_ascii "MetaData float {
-    float64 charz `
-        `,
-}
-
-root packet chars {
-    @rightPad('0')
-    Foo,
-    // c
-}")).
-Eval vm_compute in ("<<<M2046>>>" ++ check (runes_of_ascii "
-MetaData chars
-	{
-    uint32 chars `doc` 
-, int64
-    float  , 	 // trailing space 
-
-	u8 pack `
-`
-	,
-}
+Eval vm_compute in ("<<<M2182>>>" ++ check (runes_of_ascii "MetaData BodyLength
+{ int8 Foo
+, string
+    MetaDataX , float zchar ,pack options1
+,asx string_, }
+packet u8x {Foo@lengthOf(charz )
+`" ++ [28040; 24687; 31867; 22411]%N ++ runes_of_ascii "`}  ,
 ")).
-Eval vm_compute in ("<<<M1759>>>" ++ check (runes_of_ascii "
-packet 
-// c
-	metadata{  Logon { A
-`" ++ [28040; 24687; 31867; 22411]%N ++ runes_of_ascii "`
+Eval vm_compute in ("<<<M1102>>>" ++ check (runes_of_ascii "MetaData Header
+{ // @lengthOf(
+}packet i8i8 { // " ++ [27880; 37322]%N ++ runes_of_ascii "
+@calculatedFrom(
+""it's"" )@leftPad  ('0')
+    @lengthOf(msg_type
+)u8 Logon `{ , }` ,}
+")).
+Eval vm_compute in ("<<<M3356>>>" ++ check (runes_of_ascii "// top
+root // c0a
+  // c0b
+packet // c1
+P
+    // c2
+{ // c3a
+  // c3b
+repeat // c4
+char // c5a
+  // c5b
+cs ,
+    // c7
+u8 x , }
+    // c11
+")).
+Eval vm_compute in ("<<<M1969>>>" ++ check (runes_of_ascii "
+packet leftPad {
+@leftPad( '0')
+u32
+float32 `100% of %d` ,repeat// 50% %s
+i8 chars
     ,
-	tag o  ,
-
-}
-	,
-zchar  len
-`// not a comment`, }")).
-Eval vm_compute in ("<<<M136>>>" ++ check (runes_of_ascii "MetaData
-options1
+} MetaData
+    f32a
+{ // packet A { u8 x, }
+}")).
+Eval vm_compute in ("<<<M2175>>>" ++ check (runes_of_ascii "MetaData BodyLength
+{ int8 Foo
+, string
+    MetaDataX , float zchar ,pack options1
+,asx string_, }
+packet u8x {Foo@lengthOf(charz )
+,  }
+")).
+Eval vm_compute in ("<<<M2042>>>" ++ check (runes_of_ascii "
+packet leftPad {
+@leftPad( '0')
+u32
+i64_ `100% of %d` ,repeat// 50% %s
+i8 chars
+    ,
+} ~MetaData
+    f32a
+{ // packet A { u8 x, }
+}")).
+Eval vm_compute in ("<<<M1983>>>" ++ check (runes_of_ascii "
+packet leftPad {
+@leftPad( '0')
+u32
+i64_ `100% of %d` ,i8// 50% %s
+repeat chars
+    ,
+} MetaData
+    f32a
+{ // packet A { u8 x, }
+}")).
+Eval vm_compute in ("<<<M2305>>>" ++ check (runes_of_ascii "options
     {
-    char[ 7 ] i8i8
-, zchar[ 65535
-] u128
-    , char[]  repeatCount
-,
-}
-")).
-Eval vm_compute in ("<<<M128>>>" ++ check (runes_of_ascii "MetaData msg_type
-    { char[]
-    int
-    ,  char[ 255 ]
-o ,
-    // `tick` ""quote"" 'q'
-    }")).
-Eval vm_compute in ("<<<M1431>>>" ++ check (runes_of_ascii "packet chars { } packet MetaDataX { @tag( 42 ) i16 string_ , repeat x `say ""hi""` , }
-// c
-")).
-Eval vm_compute in ("<<<M1199>>>" ++ check (runes_of_ascii "MetaData float { float64 charz `
-` , } root packet
-// c
-chars { @rightPad ( '0' ) Foo , }")).
-Eval vm_compute in ("<<<M1410>>>" ++ check (runes_of_ascii "packet chars { } packet MetaDataX { @tag( // c
-42 ) i16 string_ , repeat x `say ""hi""` , }")).
-Eval vm_compute in ("<<<M823>>>" ++ check (runes_of_ascii "packet A {
-  match k as n {
-    [""a"", ""bb"", ""c c"", ""d"", ""e"", ""f""] : B,
-    2 : C
-  },
-}")).
-Eval vm_compute in ("<<<M1140>>>" ++ check (runes_of_ascii "packet metadata { Logon { A `" ++ [28040; 24687; 31867; 22411]%N ++ runes_of_ascii "` , tag // c
-o , } , zchar len `// not a comment` , }")).
-Eval vm_compute in ("<<<M1345>>>" ++ check (runes_of_ascii "packet o {
-// c
-repeat Logon uint8x , } options { asx = zchar[ 3 ] stringy = '\x00' }")).
-Eval vm_compute in ("<<<M1763>>>" ++ check (runes_of_ascii "packet A {
-    match k as n {
-        [""a"", ""bb"", ""c c""] : B,
-        2 : C,
-    },
-}")).
-Eval vm_compute in ("<<<M1306>>>" ++ check (runes_of_ascii "MetaData
-// c
-body { i64 pack `it's` , } packet stringy { int16 calculatedFrom , }")).
-Eval vm_compute in ("<<<M825>>>" ++ check (runes_of_ascii "packet A {
-  match k as n {
-    [1, ""bb"", 007, ""d"", 5, ""f""] : B,
-    2 : C
-  },
-}")).
-Eval vm_compute in ("<<<M1962>>>" ++ check (runes_of_ascii "packet A {
-    match k as n {
-        [""a"", ""bb""] : B,
-        2 : C,
-    },
-}")).
-Eval vm_compute in ("<<<M802>>>" ++ check (runes_of_ascii "packet A {
-  match k as n {
-    [""a"", 22, ""c c"", 4] : B
-    2 : C
-  },
-}")).
-Eval vm_compute in ("<<<M859>>>" ++ check (runes_of_ascii "packet A { Inner { match k as n { [1,22,007,4,5,66,7,8] : B, }, }, }")).
-Eval vm_compute in ("<<<M1452>>>" ++ check (runes_of_ascii "
-
-  root
-    packet P  { hdr
-
+x_y_z// " ++ [27880; 37322]%N ++ runes_of_ascii "
+= 10 ; }
+packet body {
+    @calculatedFrom(
+// trailing space 
+// " ++ [27880; 37322]%N ++ runes_of_ascii "
+""1""
+)	match T as Foo
     {
-u8
-
-a
-	,
-}  ,  u8	x, 
-}")).
-Eval vm_compute in ("<<<M1450>>>" ++ check (runes_of_ascii "root packet P {
-    hdr {
-        u8 a,
-    },
-    u8 x,
-}
+255 T: , }
+,}")).
+Eval vm_compute in ("<<<M2268>>>" ++ check (runes_of_ascii "options
+    {
+x_y_z// " ++ [27880; 37322]%N ++ runes_of_ascii "
+= 10 ; }
+packet body {
+    @calculatedFrom(
+// trailing space 
+// " ++ [27880; 37322]%N ++ runes_of_ascii "
+""1""
+	match T as Foo
+    {
+255 :T , }
+,}")).
+Eval vm_compute in ("<<<M2298>>>" ++ check (runes_of_ascii "options
+    {
+x_y_z// " ++ [27880; 37322]%N ++ runes_of_ascii "
+= 10 ; }
+packet body {
+    @calculatedFrom(
+// trailing space 
+// " ++ [27880; 37322]%N ++ runes_of_ascii "
+""1""
+)	match T as Foo
+    {
+ :T , }
+,}")).
+Eval vm_compute in ("<<<M761>>>" ++ check (runes_of_ascii "MetaData crc {  i64_/// triple
+Packet
+`doc` , stringy Pad
+    ,
+Packet charz ,
+body
+_x, i8i8
+    MetaDataX
+    ,u32 stringy , }
 ")).
-Eval vm_compute in ("<<<M1614>>>" ++ check (runes_of_ascii "MetaData Header {
+Eval vm_compute in ("<<<M2417>>>" ++ check (runes_of_ascii "MetaData
+    calculatedFrom
+{ zchar[  10 ]
+    As`tab	here`,
+    }// trailing space 
+options  { roots ='\x00' ; } packet 
+{ }
+")).
+Eval vm_compute in ("<<<M376>>>" ++ check (runes_of_ascii "
+options { crc =
     // trailing space 
-    u64 falsey,
+    ""// no comment""
+;  _x =
+    // " ++ [27880; 37322]%N ++ runes_of_ascii "
+    i64 As =
+    '\x00' ; }packet pack {
+}
+")).
+Eval vm_compute in ("<<<M1858>>>" ++ check (runes_of_ascii "packet o {
+    roots `it's`
+// trailing space 
+//x
+, char[ char[ 42
+    ]  A, // " ++ [27880; 37322]%N ++ runes_of_ascii "
+f64
+repeatCount
+    `crlf
+line`
+,}")).
+Eval vm_compute in ("<<<M3001>>>" ++ check (runes_of_ascii "packet A {
+  match k as n {
+    [""a"", ""bb"", ""c c"", ""d"", ""e"", ""f"", ""g"", ""h"", ""i"", ""j"", ""k"", ""l""] : B,
+    2 : C
+  },
 }")).
-Eval vm_compute in ("<<<M1905>>>" ++ check (runes_of_ascii "MetaData M {
-    u8 x `x
-    `,
-    T t `x
-    `,
-}")).
-Eval vm_compute in ("<<<M916>>>" ++ check (runes_of_ascii "MetaData M {
-    u8 x `a
+Eval vm_compute in ("<<<M1879>>>" ++ check (runes_of_ascii "packet o {
+    roots `it's`
+// trailing space 
+//x
+, char[ 42
+    ]  A f64 // " ++ [27880; 37322]%N ++ runes_of_ascii "
+,
+repeatCount
+    `crlf
+line`
+,}")).
+Eval vm_compute in ("<<<M1894>>>" ++ check (runes_of_ascii "packet o {
+    roots `it's`
+// trailing space 
+//x
+, char[ 42
+    ]  A, // " ++ [27880; 37322]%N ++ runes_of_ascii "
+f64
+repeatCount
+    ,
+`crlf
+line`}")).
+Eval vm_compute in ("<<<M533>>>" ++ check (runes_of_ascii "MetaData uint8x
+    {rootA Z9_`" ++ [233]%N ++ runes_of_ascii "`
+    ,
+    float64
+    _x `it's`//	t
+, zchar lengthOf // packet A { u8 x, }
+,}
+")).
+Eval vm_compute in ("<<<M3020>>>" ++ check (runes_of_ascii "packet A {
+    u16 len @lengthOf(body) `a
 b`,
-    T t `a
+    u32 crc @calculatedFrom(""CRC32"") `a
 b`,
+    string body,
 }")).
-Eval vm_compute in ("<<<M1115>>>" ++ check (runes_of_ascii "root packet u128 { chars `it's` , }
-// c
-")).
-Eval vm_compute in ("<<<M1062>>>" ++ check (runes_of_ascii "packet A {    u8 x, // c    u8 y,}")).
-Eval vm_compute in ("<<<M1946>>>" ++ check (runes_of_ascii "packet A {
-    u8 x `
-        `,
+Eval vm_compute in ("<<<M4395>>>" ++ check (runes_of_ascii "packet o {
+}
+
+root packet falsey {
+    // " ++ [128512]%N ++ runes_of_ascii " emoji
+    // 50% %s
+    char[3] Z9_ `two words`,
+}
+
+options {
 }")).
-Eval vm_compute in ("<<<M1003>>>" ++ check (runes_of_ascii "packet A {
- u8 x `d" ++ [8202]%N ++ runes_of_ascii "`, // c" ++ [8202]%N ++ runes_of_ascii "
+Eval vm_compute in ("<<<M3733>>>" ++ check (runes_of_ascii "MetaData
+Foo// c
+
+{ zchar[  0  ] matchKey  ,} options { 
+lengthOf
+=
+    i32 u
+
+    =	00 
+;
+
+    }
+
+")).
+Eval vm_compute in ("<<<M2990>>>" ++ check (runes_of_ascii "packet A {
+  match k as n {
+    [1, ""bb"", 007, ""d"", 5, ""f"", 7, ""h"", 9, ""j"", 11] : B,
+    2 : C
+  },
 }")).
-Eval vm_compute in ("<<<M1060>>>" ++ check (runes_of_ascii "packet A {
-}// a// b// c
+Eval vm_compute in ("<<<M617>>>" ++ check (runes_of_ascii "options
+// " ++ [27880; 37322]%N ++ runes_of_ascii "
+// 50% %s
+{  a1	=""\n""
+Z9_ = char[ 4294967296 ] metadata=	char[] ; As = u32  ; } //")).
+Eval vm_compute in ("<<<M968>>>" ++ check (runes_of_ascii "packet lengthOf {
+    repeat	string
+// " ++ [128512]%N ++ runes_of_ascii " emoji
+// `tick` ""quote"" 'q'
+calculatedFrom , // " ++ [27880; 37322]%N ++ runes_of_ascii "
+}
 ")).
-Eval vm_compute in ("<<<M59>>>" ++ check (runes_of_ascii "// packet A { u8 x, }
+Eval vm_compute in ("<<<M1438>>>" ++ check (runes_of_ascii "packet
+T
+{ match repeatCount as as	calculatedFrom
+{ [65535 ]	: As	,
+} ,}
+// trailing space 
 ")).
-Eval vm_compute in ("<<<M2101>>>" ++ check (runes_of_ascii "// c" ++ [11]%N ++ runes_of_ascii "
-packet  A{ }
+Eval vm_compute in ("<<<M1493>>>" ++ check (runes_of_ascii "packet
+T
+{ match repeatCount as	calculatedFrom
+{ [65535 ]	: As	,
+} ,} }
+// trailing space 
 ")).
-Eval vm_compute in ("<<<M1042>>>" ++ check (runes_of_ascii "// c" ++ [8203]%N ++ runes_of_ascii "
+Eval vm_compute in ("<<<M2965>>>" ++ check (runes_of_ascii "packet A {
+  match k as n {
+    [1, ""bb"", 007, ""d"", 5, ""f"", 7, ""h"", 9] : B
+    2 : C
+  },
+}")).
+Eval vm_compute in ("<<<M1807>>>" ++ check (runes_of_ascii "options{  lengthOf =//x
+i16;
+    BodyLength = 0 ; pack
+= false;
+    A = char[ 3 ] float32")).
+Eval vm_compute in ("<<<M240>>>" ++ check (runes_of_ascii "packet pack{ repeat charz , @leftPad ()  roots @lengthOf( Packet
+)
+    `it's`  , //	t
+}
+")).
+Eval vm_compute in ("<<<M3926>>>" ++ check (runes_of_ascii "MetaData Foo {
+    zchar[0] matchKey,
+}
+
+options {
+    lengthOf = i32
+    u = 00;
+}// c")).
+Eval vm_compute in ("<<<M1306>>>" ++ check (runes_of_ascii "packet repeatCount //	t
+{@calculatedFrom( ""a\""b"" )
+int16
+A, }options{	u8x =
+' '	;
+}")).
+Eval vm_compute in ("<<<M1752>>>" ++ check (runes_of_ascii "options{  lengthOf =//x
+i16;
+    BodyLength = ; 0 pack
+= false;
+    A = char[ 3 ] }")).
+Eval vm_compute in ("<<<M1785>>>" ++ check (runes_of_ascii "options{  lengthOf =//x
+i16;
+    BodyLength = 0 ; pack
+= false;
+    A  char[ 3 ] }")).
+Eval vm_compute in ("<<<M2911>>>" ++ check (runes_of_ascii "packet A {
+  match k as n {
+    [""a"", ""bb"", ""c c"", ""d"", ""e""] : B
+    2 : C
+  },
+}")).
+Eval vm_compute in ("<<<M1723>>>" ++ check (runes_of_ascii "options{  i16 =//x
+i16;
+    BodyLength = 0 ; pack
+= false;
+    A = char[ 3 ] }")).
+Eval vm_compute in ("<<<M3267>>>" ++ check (runes_of_ascii "MetaData Foo { zchar[ 0 ] matchKey , } options { lengthOf // c
+= i32 u = 00 ; }")).
+Eval vm_compute in ("<<<M2897>>>" ++ check (runes_of_ascii "packet A {
+  match k as n {
+    [""a"", ""bb"", ""c c"", ""d""] : B,
+    2 : C
+  },
+}")).
+Eval vm_compute in ("<<<M1271>>>" ++ check (runes_of_ascii "MetaData trueish { T
+    Pad //
+,
+    char[]
+    _x , } // trailing space ")).
+Eval vm_compute in ("<<<M3787>>>" ++ check (runes_of_ascii "root packet P {
+    u16 a,
+    u32 Sum @calculatedFrom(""CR\
+    C32""),
+}")).
+Eval vm_compute in ("<<<M3640>>>" ++ check (runes_of_ascii "
+packet A {
+    B
+b	`a
+
+b`
+, B
+`a
+
+b`,repeat
+
+B bs `a
+
+b`,
+
+    } ")).
+Eval vm_compute in ("<<<M1016>>>" ++ check (runes_of_ascii "/// triple
+MetaData len
+    {
+    i32// " ++ [128512]%N ++ runes_of_ascii " emoji
+o,
+//x
+/// triple
+}")).
+Eval vm_compute in ("<<<M418>>>" ++ check (runes_of_ascii "
+root packet leftPad {
+    repeat
+    uint8x	options1 // " ++ [27880; 37322]%N ++ runes_of_ascii "
+, }
+
+")).
+Eval vm_compute in ("<<<M2827>>>" ++ check (runes_of_ascii "@rightPad { zchar[ i64 repeat char[ repeat [ u32 ( packet Logon")).
+Eval vm_compute in ("<<<M3291>>>" ++ check (runes_of_ascii "packet // c
+u8x { } MetaData crc { char[ 4294967296 ] Foo , }")).
+Eval vm_compute in ("<<<M1476>>>" ++ check (runes_of_ascii "packet
+T
+{ match repeatCount as	calculatedFrom
+{ [65535 ]	:")).
+Eval vm_compute in ("<<<M1356>>>" ++ check (runes_of_ascii "options { rootA = false
+;  u=
+0123456789 ; i64_
+    = 0 }
+")).
+Eval vm_compute in ("<<<M4235>>>" ++ check (runes_of_ascii "
+packet
+	int{uint16
+    msg_type	, } packet trueish	{ } ")).
+Eval vm_compute in ("<<<M3209>>>" ++ check (runes_of_ascii "packet A { repeat // a
+ B // b
+ b // c
+ `d` // e
+ , }")).
+Eval vm_compute in ("<<<M958>>>" ++ check (runes_of_ascii "packet
+    x_y_z { msg_type  matchKey `doc` , }
+")).
+Eval vm_compute in ("<<<M2783>>>" ++ check (runes_of_ascii "@calculatedFrom( char uint32 leftPad options i8")).
+Eval vm_compute in ("<<<M51>>>" ++ check (runes_of_ascii "MetaData
+x_y_z
+{zchar[ 3
+    ] // c
+body ,}
+")).
+Eval vm_compute in ("<<<M3862>>>" ++ check (runes_of_ascii "
+packet 
+x {	tag 	 // trailing space 
+,	}
+
+")).
+Eval vm_compute in ("<<<M175>>>" ++ check (runes_of_ascii "
+packet// 50% %s
+rootA// 50% %s
+{ //
+}")).
+Eval vm_compute in ("<<<M3221>>>" ++ check (runes_of_ascii "root // c
+packet u128 { chars `doc` , }")).
+Eval vm_compute in ("<<<M3084>>>" ++ check (runes_of_ascii "options {
+    a = ""\
+"";
+    b = ""\
+""
+}")).
+Eval vm_compute in ("<<<M1043>>>" ++ check (runes_of_ascii "options
+    //
+    { roots	=i8 ;  }
+")).
+Eval vm_compute in ("<<<M2354>>>" ++ check (runes_of_ascii "Foo
+MetaData {Header //
+pack ,	} 	 ")).
+Eval vm_compute in ("<<<M2722>>>" ++ check (runes_of_ascii "&j" ++ [65533]%N ++ runes_of_ascii "p" ++ [65533]%N ++ runes_of_ascii "J" ++ [65533; 65533; 31; 65533; 65533; 65533]%N ++ runes_of_ascii "`s" ++ [65533]%N ++ runes_of_ascii "~" ++ [26; 65533; 65533; 65533; 24]%N ++ runes_of_ascii "q" ++ [65533; 8]%N ++ runes_of_ascii "H" ++ [65533; 65533; 65533; 65533; 65533; 65533]%N ++ runes_of_ascii "*" ++ [65533; 65533]%N)).
+Eval vm_compute in ("<<<M2355>>>" ++ check (runes_of_ascii "match
+Foo {Header //
+pack ,	} 	 ")).
+Eval vm_compute in ("<<<M2803>>>" ++ check (runes_of_ascii "( repeat zchar[ u16 as string ,")).
+Eval vm_compute in ("<<<M3144>>>" ++ check (runes_of_ascii "packet A {
+ u8 x `d" ++ [8287]%N ++ runes_of_ascii "`, // c" ++ [8287]%N ++ runes_of_ascii "
+}")).
+Eval vm_compute in ("<<<M1955>>>" ++ check (runes_of_ascii "
+packet leftPad {
+@leftPad(")).
+Eval vm_compute in ("<<<M2598>>>" ++ check (runes_of_ascii "packet A { x @lengthOf(), }")).
+Eval vm_compute in ("<<<M3806>>>" ++ check (runes_of_ascii "
+// c" ++ [8233]%N ++ runes_of_ascii "
+    packet
+	A{
+	}
+")).
+Eval vm_compute in ("<<<M2817>>>" ++ check (runes_of_ascii "HhE~T*;\=cDD$cFGmMe(e !/")).
+Eval vm_compute in ("<<<M1045>>>" ++ check (runes_of_ascii "packet string_
+    {	}")).
+Eval vm_compute in ("<<<M3842>>>" ++ check (runes_of_ascii "options {
+    a = 1
+}")).
+Eval vm_compute in ("<<<M2581>>>" ++ check (runes_of_ascii "packet A { x `d`, }")).
+Eval vm_compute in ("<<<M3093>>>" ++ check (runes_of_ascii "// c 
 packet A {
 }")).
-Eval vm_compute in ("<<<M348>>>" ++ check (runes_of_ascii "packet i64_ { }
+Eval vm_compute in ("<<<M3175>>>" ++ check (runes_of_ascii "packet A {
+}// c x")).
+Eval vm_compute in ("<<<M3135>>>" ++ check (runes_of_ascii "packet A {
+}// c" ++ [8239]%N)).
+Eval vm_compute in ("<<<M284>>>" ++ check (runes_of_ascii "//
+options
+{}
 ")).
-Eval vm_compute in ("<<<M86>>>" ++ check (runes_of_ascii "
-// c
+Eval vm_compute in ("<<<M1905>>>" ++ check (runes_of_ascii "packet o {
+  ")).
+Eval vm_compute in ("<<<M2854>>>" ++ check (runes_of_ascii "i32 @tag( }")).
+Eval vm_compute in ("<<<M3624>>>" ++ check (runes_of_ascii "// 50% %s")).
+Eval vm_compute in ("<<<M4412>>>" ++ check (runes_of_ascii "// c" ++ [12]%N ++ runes_of_ascii "
 ")).
-Eval vm_compute in ("<<<M179>>>" ++ check (runes_of_ascii "  
+Eval vm_compute in ("<<<M2443>>>" ++ check (runes_of_ascii "zchar")).
+Eval vm_compute in ("<<<M3151>>>" ++ check (runes_of_ascii "// c" ++ [12]%N)).
+Eval vm_compute in ("<<<M176>>>" ++ check (runes_of_ascii "
+
 ")).
+Eval vm_compute in ("<<<M2688>>>" ++ check (runes_of_ascii "`d`")).
+Eval vm_compute in ("<<<M2504>>>" ++ check (runes_of_ascii "/")).
